@@ -1,9 +1,11 @@
 (* C14 - proofs about the module machine of Modules.v, over EVERY event sequence and for EVERY loader and
    compiler (Section variables).  Headline theorems (restated in props/C14.v):
-     body_runs_at_most_once, loaded_at_most_once, same_module_object, cycle_is_import_error,
-     loading_module_is_cycle_error, failed_load_is_import_error, failed_compile_is_import_error,
+     body_runs_at_most_once (per module object; a started body whose object is no longer the registered one
+     is a FAILED import), body_starts_only_if_absent_or_failed, loaded_module_is_settled (a finished module is
+     never loaded or run again), same_module_object, cycle_is_import_error, loading_module_is_cycle_error,
+     failed_load_is_import_error, failed_compile_is_import_error, failed_import_is_retried,
      globals_isolated (+ call_enters_defining_module, global_write_is_local, attrs_frame),
-     builtins_in_every_module, and the refutations at the frame limit / for main-only names. *)
+     builtins_in_every_module, and the `_refuted_old` witnesses on the model variant before 367eb72. *)
 From Coq Require Import List String NArith Bool Arith Lia.
 From YV Require Import Modules ModuleSpec ModLang.
 Import ListNotations.
@@ -101,6 +103,25 @@ Qed.
 Lemma in_suffix A (pre l : list A) x : In x l -> In x (pre ++ l).
 Proof. intros; apply in_or_app; auto. Qed.
 
+
+Lemma alookup_aremove A (l : list (string * A)) x y :
+  alookup (aremove l x) y = if String.eqb x y then None else alookup l y.
+Proof.
+  induction l as [|[k v] l IH]; simpl.
+  - destruct (String.eqb x y); reflexivity.
+  - destruct (String.eqb k x) eqn:E.
+    + apply String.eqb_eq in E; subst k. rewrite IH. destruct (String.eqb x y); reflexivity.
+    + simpl. rewrite IH. destruct (String.eqb k y) eqn:E2; auto.
+      destruct (String.eqb x y) eqn:E3; auto.
+      apply String.eqb_eq in E2. apply String.eqb_eq in E3. subst. rewrite String.eqb_refl in E. discriminate.
+Qed.
+
+Lemma existsb_suffix A (f : A -> bool) (pre l : list A) : existsb f (pre ++ l) = false -> existsb f l = false.
+Proof. rewrite existsb_app. intros H. apply orb_false_iff in H. tauto. Qed.
+
+Lemma NoDup_suffix A (pre l : list A) : NoDup (pre ++ l) -> NoDup l.
+Proof. induction pre as [|a pre IH]; simpl; auto. intros H. inversion H; auto. Qed.
+
 (* ---------------------------------------------------------------------------------------------- *)
 
 Section Proofs.
@@ -109,72 +130,63 @@ Section Proofs.
   Variable compiler : path -> SrcId -> comp_result Body.
   Variable builtin_names : list name.
   Variable frames_max : nat.
+  Variables chk grd : bool.      (* hit_checks_loading, builtins_guarded: everything up to `Inv` holds for both variants *)
 
-  Notation stepM := (step SrcId Body loader compiler builtin_names frames_max).
-  Notation runM := (run_events SrcId Body loader compiler builtin_names frames_max).
+  Notation stepM := (step SrcId Body loader compiler builtin_names frames_max chk grd).
+  Notation runM := (run_events SrcId Body loader compiler builtin_names frames_max chk grd).
   Notation raiseM := (raise Body).
   Notation callM := (call_closure Body frames_max).
-  Notation startM := (start_import SrcId Body loader compiler builtin_names frames_max).
+  Notation loadrunM := (load_and_run SrcId Body loader compiler builtin_names frames_max grd).
+  Notation startM := (start_import SrcId Body loader compiler builtin_names frames_max chk grd).
   Notation initB := (init_builtins builtin_names).
 
-  (* body frames of module object id *)
-  Definition no_body_frame (fs : list frame) (id : nat) : Prop :=
-    forall g, In g fs -> f_body g = true -> f_mod g <> id.
-
-  (* a module held as an import temporary by a frame has no body frame at or below that frame *)
-  Fixpoint pend_ok (fs : list frame) : Prop :=
-    match fs with
-    | [] => True
-    | f :: below => (forall id, In id (f_pend f) -> no_body_frame (f :: below) id) /\ pend_ok below
-    end.
-
-  Definition frame_ok (n : nat) (f : frame) : Prop := f_mod f < n /\ (forall id, In id (f_pend f) -> id < n).
+  Definition body_mods (fs : list frame) : list nat := map f_mod (filter f_body fs).
+  Definition registered (st : state) (id : nat) : Prop := alookup (reg st) (m_path (getmod st id)) = Some id.
 
   Record Inv (st : state) : Prop := mkInv {
     i_reg1 : forall p id, alookup (reg st) p = Some id -> id < List.length (heap st) /\ m_path (getmod st id) = p;
-    i_reg2 : forall id, id < List.length (heap st) -> alookup (reg st) (m_path (getmod st id)) = Some id;
     i_fr_ne : frames st <> [];
-    i_fr_ok : forall f, In f (frames st) -> frame_ok (List.length (heap st)) f;
+    i_fr_ok : forall f, In f (frames st) -> f_mod f < List.length (heap st);
     i_act_lt : active st < List.length (heap st);
     i_act : dead st = None -> active st = top_mod st;
-    i_hand : forall h, In h (handlers st) -> 1 <= h_frames h;
+    i_hand : forall h, In h (handlers st) -> 1 <= h;
     i_ran_nd : NoDup (ran st);
     i_ran_lt : forall id, In id (ran st) -> id < List.length (heap st);
-    i_yield : forall p id, In (p, id) (yielded st) -> alookup (reg st) p = Some id;
+    i_yield : forall p id, In (p, id) (yielded st) -> alookup (reg st) p = Some id /\ m_imported (getmod st id) = true;
     i_built : forall id, id = 0 \/ In id (ran st) -> forall b, In b builtin_names -> In b (akeys (attrs_of st id));
-    i_loading : forall f, In f (frames st) -> f_body f = true -> m_imported (getmod st (f_mod f)) = false;
-    i_pend : pend_ok (frames st)
+    (* a module whose body is on the frame stack is the registered object of its path and not yet imported *)
+    i_loading : forall f, In f (frames st) -> f_body f = true ->
+                registered st (f_mod f) /\ m_imported (getmod st (f_mod f)) = false;
+    i_body_nd : NoDup (body_mods (frames st));
+    (* a started body whose object is not (any more) the registered object of its path is a failed import *)
+    i_ran_ok : forall id, In id (ran st) ->
+               registered st id \/ (m_imported (getmod st id) = false /\ is_loading st id = false)
   }.
 
-  (* ---- pend_ok ---- *)
-  Lemma pend_ok_suffix pre fs : pend_ok (pre ++ fs) -> pend_ok fs.
-  Proof. induction pre as [|a pre IH]; simpl; auto. intros [_ H]; auto. Qed.
-
-  Lemma no_body_frame_suffix pre fs id : no_body_frame (pre ++ fs) id -> no_body_frame fs id.
-  Proof. intros H g Hg. apply H. apply in_suffix; auto. Qed.
-
-  Lemma pend_ok_top_shrink f below pend' :
-    (forall id, In id pend' -> In id (f_pend f)) ->
-    pend_ok (f :: below) -> pend_ok (mkframe (f_mod f) (f_body f) pend' :: below).
+  (* ---- is_loading ---- *)
+  Lemma is_loading_true st id : is_loading st id = true <-> exists f, In f (frames st) /\ f_body f = true /\ f_mod f = id.
   Proof.
-    intros Hsub [Hf Hb]. split; auto. intros id Hid g Hg Hbody.
-    simpl in Hid. destruct Hg as [Hg|Hg].
-    - subst g. simpl in *. apply (Hf id (Hsub id Hid) f); [left; auto|exact Hbody].
-    - apply (Hf id (Hsub id Hid) g); [right; auto|auto].
+    unfold is_loading. rewrite existsb_exists. split.
+    - intros (f & Hf & H). apply andb_true_iff in H. destruct H as [H1 H2]. apply Nat.eqb_eq in H2. eauto.
+    - intros (f & Hf & H1 & H2). exists f. split; auto. rewrite H1, H2, Nat.eqb_refl. reflexivity.
   Qed.
 
-  Lemma pend_ok_top_shrink' f below pend' :
-    (forall id, In id pend' -> In id (f_pend f)) ->
-    pend_ok (f :: below) -> forall id, In id pend' -> no_body_frame (f :: below) id.
-  Proof. intros Hsub [Hf _] id Hid. apply Hf; auto. Qed.
+  Lemma is_loading_false st id :
+    is_loading st id = false <-> forall f, In f (frames st) -> f_body f = true -> f_mod f <> id.
+  Proof.
+    split.
+    - intros H f Hf Hb Heq. assert (is_loading st id = true) by (apply is_loading_true; eauto). congruence.
+    - intros H. destruct (is_loading st id) eqn:E; auto. apply is_loading_true in E.
+      destruct E as (f & Hf & Hb & Heq). exfalso. apply (H f); auto.
+  Qed.
 
   Lemma keep_bottom_incl A k (l : list A) x : In x (keep_bottom k l) -> In x l.
   Proof. destruct (keep_bottom_suffix A k l) as [pre E]. intros H. rewrite E. apply in_suffix; auto. Qed.
 
-  (* ---- getmod under heap updates ---- *)
-  Lemma getmod_set_heap st h id : getmod (set_heap st h) id = nth id h (empty_mod "").
-  Proof. reflexivity. Qed.
+  Lemma body_mods_suffix pre fs : body_mods (pre ++ fs) = body_mods pre ++ body_mods fs.
+  Proof. unfold body_mods. now rewrite filter_app, map_app. Qed.
 
+  (* ---- getmod under heap updates ---- *)
   Lemma getmod_upd_attrs_path st i f id : m_path (getmod (upd_attrs st i f) id) = m_path (getmod st id).
   Proof. unfold upd_attrs, getmod; simpl. apply (nth_upd_nth_proj _ _ m_path); auto. Qed.
 
@@ -203,11 +215,14 @@ Section Proofs.
     (forall a k, In k (akeys a) -> In k (akeys (f a))) -> Inv st -> Inv (upd_attrs st i f).
   Proof.
     intros Hf I. destruct I.
+    assert (Hreg : forall j, registered st j -> registered (upd_attrs st i f) j).
+    { intros j Hj. unfold registered in *. rewrite getmod_upd_attrs_path. exact Hj. }
     constructor; simpl; try rewrite upd_nth_length; auto.
     - intros p id H. rewrite getmod_upd_attrs_path. auto.
-    - intros id H. rewrite getmod_upd_attrs_path. auto.
+    - intros p id H. rewrite getmod_upd_attrs_imported. auto.
     - intros id Hid b Hb. apply keys_upd_attrs_mono; auto.
-    - intros g Hg Hb. rewrite getmod_upd_attrs_imported. auto.
+    - intros g Hg Hb. rewrite getmod_upd_attrs_imported. destruct (i_loading0 g Hg Hb). split; auto.
+    - intros id Hid. rewrite getmod_upd_attrs_imported. destruct (i_ran_ok0 id Hid) as [H|H]; auto.
   Qed.
 
   Lemma fold_ainsert_keys_mono (names : list name) (a : list (name * value)) k :
@@ -234,20 +249,50 @@ Section Proofs.
     apply fold_ainsert_keys_in; auto.
   Qed.
 
-  (* ---- set_imported ---- *)
-  Lemma set_imported_inv st id : Inv st -> no_body_frame (frames st) id -> Inv (set_imported st id).
+  (* ---- set_imported (finish_import_impl) ---- *)
+  Lemma set_imported_inv st id :
+    Inv st -> registered st id -> is_loading st id = false -> Inv (set_imported st id).
   Proof.
-    intros I Hnb. destruct I.
+    intros I Hr Hnl. destruct I.
     assert (Hpath : forall j, m_path (getmod (set_imported st id) j) = m_path (getmod st j)).
     { intros j. unfold set_imported, getmod; simpl. apply (nth_upd_nth_proj _ _ m_path); auto. }
     assert (Hattr : forall j, attrs_of (set_imported st id) j = attrs_of st j).
     { intros j. unfold attrs_of, set_imported, getmod; simpl. apply (nth_upd_nth_proj _ _ m_attrs); auto. }
+    assert (Himp : forall j, j <> id -> m_imported (getmod (set_imported st id) j) = m_imported (getmod st j)).
+    { intros j Hj. unfold set_imported, getmod; simpl. now rewrite nth_upd_nth_neq. }
+    assert (Himp' : forall j, m_imported (getmod st j) = true -> m_imported (getmod (set_imported st id) j) = true).
+    { intros j Hj. destruct (Nat.eq_dec j id) as [->|Hne]; [|rewrite Himp; auto].
+      unfold set_imported, getmod; simpl.
+      destruct (Nat.lt_ge_cases id (List.length (heap st))) as [Hlt|Hge].
+      - now rewrite nth_upd_nth_eq.
+      - unfold getmod in Hj. rewrite nth_overflow in Hj by lia. discriminate. }
+    assert (Hreg : forall j, registered st j -> registered (set_imported st id) j).
+    { intros j Hj. unfold registered in *. rewrite Hpath. exact Hj. }
+    pose proof (proj1 (is_loading_false st id) Hnl) as Hnb.
     constructor; simpl; try rewrite upd_nth_length; auto.
     - intros p j H. rewrite Hpath. auto.
-    - intros j H. rewrite Hpath. auto.
+    - intros p j H. destruct (i_yield0 p j H). split; auto.
     - intros j Hj b Hb. rewrite Hattr. auto.
-    - intros g Hg Hb. unfold set_imported, getmod; simpl.
-      rewrite nth_upd_nth_neq; [apply i_loading0; auto|]. apply Hnb; auto.
+    - intros g Hg Hb. destruct (i_loading0 g Hg Hb) as [H1 H2]. split; auto.
+      rewrite Himp; auto.
+    - intros j Hj. destruct (Nat.eq_dec j id) as [->|Hne]; [left; apply Hreg; auto|].
+      destruct (i_ran_ok0 j Hj) as [H|[H1 H2]]; [left; apply Hreg; auto|].
+      right. split; [rewrite Himp; auto|exact H2].
+  Qed.
+
+  (* ---- replacing the frames by a suffix (return, unwind) ---- *)
+  Lemma load_frame_sub_inv st pre fs :
+    Inv st -> frames st = pre ++ fs -> fs <> [] -> Inv (load_frame (set_frames st fs)).
+  Proof.
+    intros I Ef Hne. destruct I.
+    assert (Hin : forall g, In g fs -> In g (frames st)) by (intros g Hg; rewrite Ef; apply in_suffix; auto).
+    constructor; simpl; auto.
+    - unfold top_mod; simpl. destruct fs as [|f r]; [congruence|]. apply i_fr_ok0, Hin. left; auto.
+    - intros _. unfold load_frame, top_mod; simpl. destruct fs; reflexivity.
+    - intros g Hg Hb. apply i_loading0; auto.
+    - rewrite Ef, body_mods_suffix in i_body_nd0. apply NoDup_suffix in i_body_nd0. exact i_body_nd0.
+    - intros id Hid. destruct (i_ran_ok0 id Hid) as [H|[H1 H2]]; [left; exact H|right].
+      split; auto. unfold is_loading in *. simpl. rewrite Ef in H2. apply existsb_suffix in H2. exact H2.
   Qed.
 
   (* ---- raise ---- *)
@@ -256,91 +301,60 @@ Section Proofs.
     /\ ran (fst (raiseM st x)) = ran st /\ yielded (fst (raiseM st x)) = yielded st.
   Proof. unfold raise. destruct (handlers st); simpl; auto. Qed.
 
+  Lemma set_handlers_inv st hs : Inv st -> (forall h, In h hs -> 1 <= h) -> Inv (set_handlers st hs).
+  Proof. intros I H. destruct I. constructor; simpl; auto. Qed.
+
   Lemma raise_inv st x : Inv st -> Inv (fst (raiseM st x)).
   Proof.
     intros I. unfold raise. destruct (handlers st) as [|h hs] eqn:Eh; simpl.
     - destruct I. constructor; simpl; auto; try discriminate. intros h Hh; tauto.
-    - destruct I.
-      assert (Hk : 1 <= h_frames h) by (apply i_hand0; rewrite Eh; left; auto).
-      destruct (keep_bottom_suffix _ (h_frames h) (frames st)) as [pre Epre].
-      pose proof (keep_bottom_nonempty _ _ _ Hk i_fr_ne0) as Hne.
-      destruct (keep_bottom (h_frames h) (frames st)) as [|f r] eqn:Ek; [congruence|].
-      set (f' := mkframe (f_mod f) (f_body f) (keep_bottom (h_pend h) (f_pend f))).
-      assert (Hin : forall g, In g (f :: r) -> In g (frames st)).
-      { intros g Hg. rewrite Epre. apply in_suffix; auto. }
-      assert (Hfok : frame_ok (List.length (heap st)) f) by (apply i_fr_ok0, Hin; left; auto).
-      assert (Hpk : pend_ok (f :: r)) by (apply (pend_ok_suffix pre); rewrite <- Epre; auto).
-      constructor; simpl; auto; try discriminate.
-      + intros g [<-|Hg].
-        * destruct Hfok as [H1 H2]. split; simpl; auto. intros id Hid. apply H2.
-          apply (keep_bottom_incl _ (h_pend h)). exact Hid.
-        * apply i_fr_ok0, Hin; right; auto.
-      + unfold top_mod; simpl. destruct Hfok as [H1 _]; exact H1.
-      + intros h' Hh'. apply i_hand0. rewrite Eh; right; auto.
-      + intros g [<-|Hg] Hb; simpl in *.
-        * apply (i_loading0 f); auto; apply Hin; left; auto.
-        * apply i_loading0; auto; apply Hin; right; auto.
-      + apply (pend_ok_top_shrink f r); auto. intros id Hid. apply (keep_bottom_incl _ (h_pend h)). exact Hid.
+    - assert (Hk : 1 <= h) by (apply (i_hand _ I); rewrite Eh; left; auto).
+      destruct (keep_bottom_suffix _ h (frames st)) as [pre Epre].
+      pose proof (keep_bottom_nonempty _ _ _ Hk (i_fr_ne _ I)) as Hne.
+      assert (I' : Inv (set_handlers st hs)).
+      { apply set_handlers_inv; auto. intros h' Hh'. apply (i_hand _ I). rewrite Eh; right; auto. }
+      exact (load_frame_sub_inv (set_handlers st hs) pre (keep_bottom h (frames st)) I' Epre Hne).
   Qed.
 
-  (* ---- frames ---- *)
-  Lemma set_frames_top_inv st f r pend' :
-    frames st = f :: r -> Inv st ->
-    (forall id, In id pend' -> id < List.length (heap st)) ->
-    (forall id, In id pend' -> no_body_frame (f :: r) id) ->
-    Inv (set_frames st (mkframe (f_mod f) (f_body f) pend' :: r)).
-  Proof.
-    intros Ef I Hlt Hnb. destruct I. rewrite Ef in *.
-    constructor; simpl; auto; try discriminate.
-    - intros g [<-|Hg]; [|apply i_fr_ok0; right; auto].
-      destruct (i_fr_ok0 f (or_introl eq_refl)) as [H1 _]. split; auto.
-    - intros Hd. rewrite (i_act0 Hd). unfold top_mod. rewrite Ef. reflexivity.
-    - intros g [<-|Hg] Hb; simpl in *; [apply (i_loading0 f); auto; left; auto|apply i_loading0; auto; right; auto].
-    - destruct i_pend0 as [Hf Hb]. split; auto.
-      intros id Hid g Hg Hbody. simpl in Hid.
-      destruct Hg as [Hg|Hg].
-      + subst g. simpl in *. apply (Hnb id Hid f); [left; auto|auto].
-      + apply (Hnb id Hid g); [right; auto|auto].
-  Qed.
+  Lemma raise_outcome st x : snd (raiseM st x) = OCaught x \/ snd (raiseM st x) = ODead x.
+  Proof. unfold raise. destruct (handlers st); simpl; auto. Qed.
 
-  Lemma push_pend_inv st id :
-    Inv st -> id < List.length (heap st) -> no_body_frame (frames st) id -> Inv (push_pend id st).
+  (* ---- logs ---- *)
+  Lemma log_yield_inv st p id :
+    Inv st -> alookup (reg st) p = Some id -> m_imported (getmod st id) = true -> Inv (log_yield p id st).
   Proof.
-    intros I Hlt Hnb. unfold push_pend. destruct (frames st) as [|f r] eqn:Ef; auto.
-    apply set_frames_top_inv; auto.
-    - intros j [<-|Hj]; auto. destruct I. rewrite Ef in *. apply (i_fr_ok0 f (or_introl eq_refl)); auto.
-    - intros j [<-|Hj]; auto. destruct I. rewrite Ef in *. destruct i_pend0 as [Hf _]. apply Hf; auto.
-  Qed.
-
-  Lemma log_yield_inv st p id : Inv st -> alookup (reg st) p = Some id -> Inv (log_yield p id st).
-  Proof.
-    intros I H. destruct I. constructor; simpl; auto.
-    intros q j [E|Hq]; auto. inversion E; subst; auto.
+    intros I H Hi. destruct I. constructor; simpl; auto.
+    intros q j [E|Hq]; [inversion E; subst; auto|apply i_yield0; auto].
   Qed.
 
   Lemma log_load_inv st p : Inv st -> Inv (log_load p st).
   Proof. intros I. destruct I. constructor; simpl; auto. Qed.
 
-  Lemma load_frame_inv st : Inv st -> Inv (load_frame st).
-  Proof.
-    intros I. destruct I. constructor; simpl; auto.
-    - unfold top_mod. destruct (frames st) as [|f r] eqn:Ef; [congruence|].
-      destruct (i_fr_ok0 f (or_introl eq_refl)) as [H1 _]; exact H1.
-    - intros _. unfold load_frame, top_mod; simpl. destruct (frames st); reflexivity.
-  Qed.
-
+  (* ---- calls ---- *)
   Lemma push_frame_inv st m b :
-    Inv st -> m < List.length (heap st) -> (b = true -> m_imported (getmod st m) = false) ->
-    Inv (load_frame (set_frames st (mkframe m b [] :: frames st))).
+    Inv st -> m < List.length (heap st) ->
+    (b = true -> registered st m /\ m_imported (getmod st m) = false /\ is_loading st m = false) ->
+    Inv (load_frame (set_frames st (mkframe m b :: frames st))).
   Proof.
     intros I Hlt Hb. destruct I. constructor; simpl; auto; try discriminate.
-    - intros g [<-|Hg]; auto. split; simpl; auto. intros id [].
-    - intros g [<-|Hg] Hg'; simpl in *; [apply Hb; auto|apply i_loading0; auto].
-    - split; auto. intros id [].
+    - intros g [<-|Hg]; auto.
+    - intros g [<-|Hg] Hg'; simpl in *; [destruct (Hb Hg') as (H1 & H2 & _); split; auto|apply i_loading0; auto].
+    - unfold body_mods. simpl. destruct b; simpl; auto. constructor; auto.
+      destruct (Hb eq_refl) as (_ & _ & H3). intros Hin.
+      apply in_map_iff in Hin. destruct Hin as (g & Hg1 & Hg2). apply filter_In in Hg2. destruct Hg2 as [Hg2 Hg3].
+      apply (proj1 (is_loading_false st m) H3 g); auto.
+    - intros id Hid. destruct (i_ran_ok0 id Hid) as [H|[H1 H2]]; [left; exact H|].
+      destruct (Nat.eq_dec id m) as [->|Hne].
+      + destruct b.
+        * left. apply Hb; auto.
+        * right. split; [exact H1|]. unfold is_loading in *. simpl. exact H2.
+      + right. split; [exact H1|]. unfold is_loading in *. simpl. rewrite H2.
+        destruct b; simpl; auto. apply Nat.eqb_neq in Hne. rewrite Nat.eqb_sym, Hne. reflexivity.
   Qed.
 
   Lemma call_closure_inv st m b :
-    Inv st -> m < List.length (heap st) -> (b = true -> m_imported (getmod st m) = false) ->
+    Inv st -> m < List.length (heap st) ->
+    (b = true -> registered st m /\ m_imported (getmod st m) = false /\ is_loading st m = false) ->
     Inv (fst (callM st m b)).
   Proof.
     intros I Hlt Hb. unfold call_closure. destruct (Nat.eqb _ _).
@@ -348,10 +362,41 @@ Section Proofs.
     - simpl. apply push_frame_inv; auto.
   Qed.
 
-  (* ---- get_or_create (registry miss) ---- *)
-  Lemma getmod_app_old st p id x :
-    id < List.length (heap st) -> nth id (heap st ++ [x]) (empty_mod p) = nth id (heap st) (empty_mod p).
-  Proof. intros H. now rewrite app_nth1. Qed.
+  Lemma call_closure_fields st m b :
+    reg (fst (callM st m b)) = reg st /\ heap (fst (callM st m b)) = heap st /\ loads (fst (callM st m b)) = loads st
+    /\ ran (fst (callM st m b)) = ran st /\ yielded (fst (callM st m b)) = yielded st.
+  Proof. unfold call_closure. destruct (Nat.eqb _ _); [apply raise_fields|simpl; auto]. Qed.
+
+  Lemma call_closure_none st m b st' :
+    callM st m b = (st', ONone) ->
+    st' = load_frame (set_frames st (mkframe m b :: frames st)) /\ List.length (frames st) <> frames_max.
+  Proof.
+    unfold call_closure. destruct (Nat.eqb _ _) eqn:E.
+    - intros H. destruct (raise_outcome st (XErr (mkerr KIndex [stack_overflow_msg]))) as [H'|H'];
+        rewrite H in H'; simpl in H'; discriminate.
+    - intros H. inversion H. apply Nat.eqb_neq in E. auto.
+  Qed.
+
+  (* ---- the registry: removal of a failed leftover, creation of a module object ---- *)
+  Lemma unregister_inv st p id0 :
+    Inv st -> alookup (reg st) p = Some id0 -> m_imported (getmod st id0) = false -> is_loading st id0 = false ->
+    Inv (set_reg st (aremove (reg st) p)).
+  Proof.
+    intros I Hr Hi Hl. destruct I.
+    pose proof (proj1 (is_loading_false st id0) Hl) as Hnb.
+    assert (Hkeep : forall q j, alookup (reg st) q = Some j -> j <> id0 -> alookup (aremove (reg st) p) q = Some j).
+    { intros q j Hq Hne. rewrite alookup_aremove. destruct (String.eqb p q) eqn:E; auto.
+      apply String.eqb_eq in E; subst q. congruence. }
+    constructor; simpl; auto.
+    - intros q j H. rewrite alookup_aremove in H. destruct (String.eqb p q); [discriminate|apply i_reg2; auto].
+    - intros q j H. destruct (i_yield0 q j H) as [H1 H2]. split; auto.
+      apply Hkeep; auto. intros ->. change (m_imported (getmod st id0) = true) in H2. congruence.
+    - intros f Hf Hb. destruct (i_loading0 f Hf Hb) as [H1 H2]. split; auto.
+      unfold registered in *. simpl. apply Hkeep; auto.
+    - intros id Hid. destruct (i_ran_ok0 id Hid) as [H|H]; [|right; exact H].
+      destruct (Nat.eq_dec id id0) as [->|Hne]; [right; split; auto|].
+      left. unfold registered in *. simpl. apply Hkeep; auto.
+  Qed.
 
   Definition created (st : state) (p : path) : state :=
     mkstate (reg st ++ [(p, List.length (heap st))]) (heap st ++ [empty_mod p]) (frames st) (handlers st)
@@ -371,161 +416,133 @@ Section Proofs.
   Proof.
     intros I Hn. destruct I.
     assert (Hlen : List.length (heap st ++ [empty_mod p]) = S (List.length (heap st))) by (rewrite app_length; simpl; lia).
+    assert (H0 : 0 < List.length (heap st)).
+    { destruct (frames st) as [|f r] eqn:Ef; [congruence|]. pose proof (i_fr_ok0 f (or_introl eq_refl)). lia. }
+    assert (Hreg : forall j, j < List.length (heap st) -> registered st j -> registered (created st p) j).
+    { intros j Hj Hr. unfold registered in *. rewrite getmod_created_old; auto. simpl. apply alookup_app_some; auto. }
     constructor; simpl; try rewrite Hlen; auto.
     - intros q id H.
       destruct (alookup (reg st) q) as [j|] eqn:Eq.
       + rewrite (alookup_app_some _ _ _ _ _ _ Eq) in H. inversion H; subst j.
-        destruct (i_reg3 _ _ Eq) as [H1 H2]. split; [lia|]. rewrite getmod_created_old; auto.
+        destruct (i_reg2 _ _ Eq) as [H1 H2]. split; [lia|]. rewrite getmod_created_old; auto.
       + rewrite (alookup_app_none _ _ _ _ _ Eq) in H. destruct (String.eqb p q) eqn:E; [|discriminate].
         inversion H; subst id. apply String.eqb_eq in E; subst q. split; [lia|].
         rewrite getmod_created_new. reflexivity.
-    - intros id Hid. destruct (Nat.eq_dec id (List.length (heap st))) as [->|Hne].
-      + rewrite getmod_created_new; simpl. rewrite (alookup_app_none _ _ _ _ _ Hn). now rewrite String.eqb_refl.
-      + assert (Hlt : id < List.length (heap st)) by lia.
-        rewrite getmod_created_old; auto. apply alookup_app_some. auto.
-    - intros g Hg. destruct (i_fr_ok0 g Hg) as [H1 H2]. split; [lia|]. intros id Hid. specialize (H2 id Hid). lia.
+    - intros g Hg. specialize (i_fr_ok0 g Hg). lia.
     - intros id Hid. specialize (i_ran_lt0 id Hid). lia.
-    - intros q id Hq. apply alookup_app_some. auto.
+    - intros q id Hq. destruct (i_yield0 q id Hq) as [H1 H2]. split; [apply alookup_app_some; auto|].
+      rewrite getmod_created_old; auto. apply (i_reg2 _ _ H1).
     - intros id Hid b Hb. unfold attrs_of. rewrite getmod_created_old; [apply i_built0; auto|].
-      destruct Hid as [->|Hid]; [|apply i_ran_lt0; auto].
-      destruct (frames st) as [|f r] eqn:Ef; [congruence|].
-      destruct (i_fr_ok0 f (or_introl eq_refl)); lia.
-    - intros g Hg Hb. rewrite getmod_created_old; auto. apply i_fr_ok0; auto.
+      destruct Hid as [->|Hid]; auto.
+    - intros g Hg Hb. destruct (i_loading0 g Hg Hb) as [H1 H2]. split.
+      + apply Hreg; auto.
+      + rewrite getmod_created_old; auto.
+    - intros id Hid. pose proof (i_ran_lt0 id Hid) as Hlt.
+      destruct (i_ran_ok0 id Hid) as [H|[H1 H2]]; [left; apply Hreg; auto|right].
+      split; [rewrite getmod_created_old; auto|exact H2].
   Qed.
 
   Lemma log_ran_inv st id :
-    Inv st -> id < List.length (heap st) -> ~ In id (ran st) ->
+    Inv st -> id < List.length (heap st) -> ~ In id (ran st) -> registered st id ->
     (forall b, In b builtin_names -> In b (akeys (attrs_of st id))) -> Inv (log_ran id st).
   Proof.
-    intros I Hlt Hnin Hb. destruct I. constructor; simpl; auto.
+    intros I Hlt Hnin Hr Hb. destruct I. constructor; simpl; auto.
     - constructor; auto.
     - intros j [<-|Hj]; auto.
     - intros j [->|[<-|Hj]] b Hbn.
       + apply (i_built0 0); auto.
       + apply Hb; auto.
       + apply (i_built0 j); auto.
-  Qed.
-
-  (* ---- finish_import ---- *)
-  Lemma finish_import_inv st : Inv st -> Inv (finish_import st).
-  Proof.
-    intros I. unfold finish_import. destruct (frames st) as [|f r] eqn:Ef; auto.
-    destruct (f_pend f) as [|id pend] eqn:Ep; auto.
-    assert (Hnb : no_body_frame (f :: r) id).
-    { destruct I. rewrite Ef in *. destruct i_pend0 as [Hf _]. apply Hf. rewrite Ep; left; auto. }
-    apply set_imported_inv.
-    - apply set_frames_top_inv; auto.
-      + intros j Hj. destruct I. rewrite Ef in *. apply (i_fr_ok0 f (or_introl eq_refl)). rewrite Ep; right; auto.
-      + intros j Hj. destruct I. rewrite Ef in *. destruct i_pend0 as [Hf _]. apply Hf. rewrite Ep; right; auto.
-    - simpl. intros g Hg Hb. destruct Hg as [<-|Hg]; simpl in *.
-      + apply (Hnb f); auto. left; auto.
-      + apply (Hnb g); auto. right; auto.
-  Qed.
-
-  (* ---- outcomes of raise / call_closure ---- *)
-  Lemma raise_outcome st x : snd (raiseM st x) = OCaught x \/ snd (raiseM st x) = ODead x.
-  Proof. unfold raise. destruct (handlers st); simpl; auto. Qed.
-
-  Lemma raise_caught st x h hs : handlers st = h :: hs -> snd (raiseM st x) = OCaught x.
-  Proof. intros H. unfold raise. rewrite H. reflexivity. Qed.
-
-  Lemma raise_dead st x : handlers st = [] -> snd (raiseM st x) = ODead x /\ dead (fst (raiseM st x)) = Some x.
-  Proof. intros H. unfold raise. rewrite H. simpl. auto. Qed.
-
-  Lemma call_closure_fields st m b :
-    reg (fst (callM st m b)) = reg st /\ heap (fst (callM st m b)) = heap st /\ loads (fst (callM st m b)) = loads st
-    /\ ran (fst (callM st m b)) = ran st /\ yielded (fst (callM st m b)) = yielded st.
-  Proof. unfold call_closure. destruct (Nat.eqb _ _); [apply raise_fields|simpl; auto]. Qed.
-
-  Lemma call_closure_none st m b st' :
-    callM st m b = (st', ONone) ->
-    st' = load_frame (set_frames st (mkframe m b [] :: frames st)) /\ List.length (frames st) <> frames_max.
-  Proof.
-    unfold call_closure. destruct (Nat.eqb _ _) eqn:E.
-    - intros H. destruct (raise_outcome st (XErr (mkerr KIndex [stack_overflow_msg]))) as [H'|H'];
-        rewrite H in H'; simpl in H'; discriminate.
-    - intros H. inversion H. apply Nat.eqb_neq in E. auto.
-  Qed.
-
-  Lemma load_frame_sub_inv st fs :
-    Inv st -> fs <> [] -> (forall g, In g fs -> In g (frames st)) -> pend_ok fs ->
-    Inv (load_frame (set_frames st fs)).
-  Proof.
-    intros I Hne Hin Hp. destruct I. constructor; simpl; auto.
-    - unfold top_mod; simpl. destruct fs as [|f r]; [congruence|].
-      destruct (i_fr_ok0 f (Hin f (or_introl eq_refl))) as [H1 _]; exact H1.
-    - intros _. unfold load_frame, top_mod; simpl. destruct fs; reflexivity.
-    - intros g Hg Hb. apply i_loading0; auto.
+    - intros j [<-|Hj]; [left; exact Hr|apply i_ran_ok0; auto].
   Qed.
 
   (* ---- the import statement ---- *)
+  Lemma load_and_run_inv st p : Inv st -> alookup (reg st) p = None -> Inv (fst (loadrunM st p)).
+  Proof.
+    intros I Er. unfold load_and_run.
+    destruct (loader p) as [src|e]; [|apply raise_inv, log_load_inv; auto].
+    destruct (compiler p src) as [body|msgs]; [|apply raise_inv, log_load_inv; auto].
+    rewrite get_or_create_none by (simpl; exact Er).
+    set (st1 := log_load p st). set (id := List.length (heap st1)).
+    set (st2 := created st1 p).
+    assert (I1 : Inv st1) by (apply log_load_inv; auto).
+    assert (I2 : Inv st2) by (apply created_inv; auto).
+    assert (Hlt : id < List.length (heap st2)).
+    { unfold st2, created; simpl. rewrite app_length; simpl. unfold id; simpl. lia. }
+    assert (Hnew : getmod st2 id = empty_mod p) by apply getmod_created_new.
+    assert (Hreg : registered st2 id).
+    { unfold registered. rewrite Hnew. simpl. rewrite (alookup_app_none _ _ _ _ _ Er). now rewrite String.eqb_refl. }
+    assert (Hnl : is_loading st2 id = false).
+    { apply is_loading_false. simpl. intros g Hg _ Heq. pose proof (i_fr_ok _ I g Hg) as H. unfold id in Heq; simpl in Heq. lia. }
+    assert (Himp : m_imported (getmod st2 id) = false) by (rewrite Hnew; reflexivity).
+    pose proof (call_closure_inv st2 id true I2 Hlt (fun _ => conj Hreg (conj Himp Hnl))) as I4.
+    pose proof (call_closure_fields st2 id true) as (Hr4 & Hh4 & _ & Hran4 & _).
+    destruct (callM st2 id true) as [st4 o] eqn:Ec. simpl in I4, Hr4, Hh4, Hran4.
+    destruct o; simpl; auto.
+    - (* the body's frame is pushed *)
+      destruct (call_closure_none _ _ _ _ Ec) as [E4 _].
+      assert (Hact : active st4 = id) by (rewrite E4; reflexivity).
+      rewrite Hact, Nat.eqb_refl, orb_true_r.
+      change (Inv (log_ran id (initB id st4))).
+      assert (Hlt4 : id < List.length (heap st4)) by (rewrite Hh4; exact Hlt).
+      apply log_ran_inv.
+      + apply init_builtins_inv; auto.
+      + simpl. rewrite upd_nth_length. exact Hlt4.
+      + simpl. rewrite Hran4. simpl. intros Hin. pose proof (i_ran_lt _ I _ Hin) as H. unfold id in H; simpl in H. lia.
+      + unfold registered, init_builtins. rewrite getmod_upd_attrs_path. simpl.
+        unfold registered in Hreg. unfold getmod in *. rewrite Hh4, Hr4. exact Hreg.
+      + intros b Hb. apply init_builtins_has; auto.
+    - destruct (negb grd || Nat.eqb (active st4) id); [apply init_builtins_inv; auto|exact I4].
+  Qed.
+
   Lemma start_import_inv st p : Inv st -> Inv (fst (startM st p)).
   Proof.
     intros I. unfold start_import.
-    destruct (alookup (reg st) p) as [id|] eqn:Er.
-    - destruct (m_imported (getmod st id)) eqn:Ei.
-      + simpl. apply push_pend_inv.
-        * apply log_yield_inv; auto.
-        * simpl. apply (i_reg1 _ I _ _ Er).
-        * simpl. intros g Hg Hb Heq. pose proof (i_loading _ I g Hg Hb) as H. rewrite Heq, Ei in H. discriminate.
-      + apply raise_inv; auto.
-    - destruct (loader p) as [src|e]; [|apply raise_inv, log_load_inv; auto].
-      destruct (compiler p src) as [body|msgs]; [|apply raise_inv, log_load_inv; auto].
-      rewrite get_or_create_none by (simpl; exact Er).
-      set (st1 := log_load p st). set (id := List.length (heap st1)).
-      set (st2 := created st1 p).
-      assert (I1 : Inv st1) by (apply log_load_inv; auto).
-      assert (I2 : Inv st2) by (apply created_inv; auto).
-      assert (Hreg : alookup (reg st2) p = Some id).
-      { unfold st2, created; simpl. rewrite (alookup_app_none _ _ _ _ _ Er). now rewrite String.eqb_refl. }
-      assert (Hlt : id < List.length (heap st2)).
-      { unfold st2, created; simpl. rewrite app_length; simpl. unfold id; simpl. lia. }
-      set (st3 := push_pend id (log_yield p id st2)).
-      assert (I3 : Inv st3).
-      { apply push_pend_inv; [apply log_yield_inv; auto|exact Hlt|].
-        simpl. intros g Hg _ Heq. destruct (i_fr_ok _ I g Hg) as [H1 _]. unfold id in Heq; simpl in Heq. lia. }
-      assert (Hheap3 : heap st3 = heap st2).
-      { unfold st3, push_pend. simpl. destruct (frames st); reflexivity. }
-      assert (Hran3 : ran st3 = ran st).
-      { unfold st3, push_pend. simpl. destruct (frames st); reflexivity. }
-      assert (Himp : m_imported (getmod st3 id) = false).
-      { unfold getmod. rewrite Hheap3. change (m_imported (getmod (created st1 p) (List.length (heap st1))) = false).
-        rewrite getmod_created_new. reflexivity. }
-      assert (Hlt3 : id < List.length (heap st3)) by (rewrite Hheap3; exact Hlt).
-      pose proof (call_closure_inv st3 id true I3 Hlt3 (fun _ => Himp)) as I4.
-      pose proof (call_closure_fields st3 id true) as (_ & Hh4 & _ & Hr4 & _).
-      destruct (callM st3 id true) as [st4 o] eqn:Ec. simpl in I4, Hh4, Hr4.
-      destruct o; simpl; auto.
-      + (* the body's frame is pushed *)
-        destruct (call_closure_none _ _ _ _ Ec) as [E4 _].
-        assert (Hact : active st4 = id).
-        { rewrite E4. unfold load_frame, top_mod; simpl. reflexivity. }
-        change (Inv (log_ran id (initB (active st4) st4))).
-        apply log_ran_inv.
-        * apply init_builtins_inv; auto.
-        * simpl. rewrite upd_nth_length, Hh4. exact Hlt3.
-        * simpl. rewrite Hr4, Hran3. intros Hin. pose proof (i_ran_lt _ I _ Hin) as H. unfold id in H; simpl in H. lia.
-        * intros b Hb. rewrite Hact. apply init_builtins_has; auto. rewrite Hh4; exact Hlt3.
-      + apply init_builtins_inv; auto.
+    destruct (alookup (reg st) p) as [id|] eqn:Er; [|apply load_and_run_inv; auto].
+    destruct (m_imported (getmod st id)) eqn:Ei.
+    - simpl. apply log_yield_inv; auto.
+    - destruct (negb chk || is_loading st id) eqn:El; [apply raise_inv; auto|].
+      apply orb_false_iff in El. destruct El as [_ El].
+      apply load_and_run_inv.
+      + apply (unregister_inv st p id); auto.
+      + simpl. rewrite alookup_aremove, String.eqb_refl. reflexivity.
+  Qed.
+
+  Lemma return_inv st : Inv st -> dead st = None -> Inv (fst (stepM st EReturn)).
+  Proof.
+    intros I Hd. unfold step. rewrite Hd.
+    destruct (frames st) as [|f0 [|f r]] eqn:Ef; auto.
+    assert (I1 : Inv (load_frame (set_frames st (f :: r)))).
+    { apply (load_frame_sub_inv st [f0]); auto. discriminate. }
+    destruct (f_body f0) eqn:Eb; simpl; auto.
+    assert (Hf0 : In f0 (frames st)) by (rewrite Ef; left; auto).
+    destruct (i_loading _ I f0 Hf0 Eb) as [Hreg Himp].
+    pose proof (i_fr_ok _ I f0 Hf0) as Hlt.
+    set (st1 := load_frame (set_frames st (f :: r))) in *.
+    assert (Hnl : is_loading st1 (f_mod f0) = false).
+    { apply is_loading_false. simpl. intros g Hg Hb Heq.
+      pose proof (i_body_nd _ I) as Hnd. rewrite Ef in Hnd. unfold body_mods in Hnd.
+      change (filter f_body (f0 :: f :: r)) with (if f_body f0 then f0 :: filter f_body (f :: r) else filter f_body (f :: r)) in Hnd.
+      rewrite Eb in Hnd. change (NoDup (f_mod f0 :: map f_mod (filter f_body (f :: r)))) in Hnd.
+      inversion Hnd as [|? ? Hnin _]. apply Hnin.
+      rewrite <- Heq. apply (in_map f_mod (filter f_body (f :: r)) g).
+      apply (proj2 (filter_In f_body g (f :: r))). split; auto. }
+    assert (I2 : Inv (set_imported st1 (f_mod f0))) by (apply set_imported_inv; auto).
+    apply log_yield_inv;
+      [exact I2|simpl; exact Hreg|unfold set_imported, getmod; simpl; rewrite nth_upd_nth_eq by exact Hlt; reflexivity].
   Qed.
 
   Lemma step_inv st e : Inv st -> Inv (fst (stepM st e)).
   Proof.
-    intros I. unfold step. destruct (dead st) eqn:Ed; [exact I|].
-    destruct e; simpl.
+    intros I. destruct (dead st) eqn:Ed; [unfold step; rewrite Ed; exact I|].
+    destruct e; try (apply return_inv; auto); unfold step; rewrite Ed; simpl.
     - apply start_import_inv; auto.
-    - apply finish_import_inv; auto.
     - destruct (Nat.ltb m (List.length (heap st))) eqn:E; [|exact I].
       apply call_closure_inv; auto. apply Nat.ltb_lt; auto. discriminate.
-    - destruct (frames st) as [|f0 [|f r]] eqn:Ef; auto. simpl.
-      apply load_frame_sub_inv; auto; try discriminate.
-      + intros g Hg. rewrite Ef. right; auto.
-      + pose proof (i_pend _ I) as H. rewrite Ef in H. destruct H as [_ H]; exact H.
     - apply raise_inv; auto.
-    - destruct I. constructor; simpl; auto.
-      intros h [<-|Hh]; auto. simpl. destruct (frames st); [congruence|simpl; lia].
-    - destruct I. constructor; simpl; auto.
-      intros h Hh. apply i_hand0. destruct (handlers st); simpl in *; auto.
+    - apply set_handlers_inv; auto. intros h [<-|Hh]; [|apply (i_hand _ I); auto].
+      pose proof (i_fr_ne _ I). destruct (frames st); [congruence|simpl; lia].
+    - apply set_handlers_inv; auto. intros h Hh. apply (i_hand _ I). destruct (handlers st); simpl in *; auto.
     - destruct (alookup _ x); [exact I|apply raise_inv; auto].
     - destruct (alookup _ x); [|apply raise_inv; auto]. simpl.
       apply upd_attrs_inv; auto. intros a k. apply akeys_ainsert_mono.
@@ -544,181 +561,123 @@ Section Proofs.
     intros Hb.
     assert (Hg : forall id, getmod (init_state main_attrs) id = nth id [mkmod main_path false main_attrs] (empty_mod ""))
       by reflexivity.
+    assert (Hr0 : registered (init_state main_attrs) 0).
+    { unfold registered. rewrite Hg. cbn [nth m_path init_state reg alookup]. now rewrite String.eqb_refl. }
     constructor; unfold init_state; cbn [reg heap frames handlers active loads ran yielded dead List.length];
       auto; try discriminate.
     - intros p id H. cbn [alookup] in H. destruct (String.eqb main_path p) eqn:E; [|discriminate].
       inversion H; subst. apply String.eqb_eq in E. split; auto.
-    - intros id Hid. assert (id = 0) by lia. subst. cbn [alookup]. rewrite Hg. cbn [nth m_path].
-      now rewrite String.eqb_refl.
-    - intros f [<-|[]]. split; cbn [f_mod f_pend]; auto. intros id [].
+    - intros f [<-|[]]. cbn [f_mod]. lia.
     - intros h [].
     - constructor.
     - intros id [].
     - intros p id [].
     - intros id [->|[]] b Hbn. unfold attrs_of. rewrite Hg. cbn [nth m_attrs]. apply Hb; auto.
-    - intros f [<-|[]] _. cbn [f_mod]. rewrite Hg. reflexivity.
-    - split; [intros id []|exact I].
+    - intros f [<-|[]] _. cbn [f_mod]. split; [exact Hr0|]. rewrite Hg. reflexivity.
+    - unfold body_mods. simpl. constructor; [intros []|constructor].
+    - intros id [].
   Qed.
-
-  Definition reachable (main_attrs : list (name * value)) (st : state) : Prop :=
-    exists evs, st = runM (init_state main_attrs) evs.
-
-  Lemma reachable_inv main_attrs st :
-    (forall b, In b builtin_names -> In b (akeys main_attrs)) -> reachable main_attrs st -> Inv st.
-  Proof. intros Hb [evs ->]. apply run_inv, init_inv; auto. Qed.
 
   (* ============================================================================================ *)
-  (* which fields an event touches *)
-
-  Lemma push_pend_fields id st :
-    reg (push_pend id st) = reg st /\ heap (push_pend id st) = heap st /\ loads (push_pend id st) = loads st
-    /\ ran (push_pend id st) = ran st /\ yielded (push_pend id st) = yielded st
-    /\ List.length (frames (push_pend id st)) = List.length (frames st) /\ active (push_pend id st) = active st
-    /\ handlers (push_pend id st) = handlers st /\ dead (push_pend id st) = dead st.
-  Proof. unfold push_pend. destruct (frames st) eqn:E; simpl; rewrite ?E; repeat split; auto. Qed.
-
-  Lemma finish_import_fields st :
-    reg (finish_import st) = reg st /\ loads (finish_import st) = loads st /\ ran (finish_import st) = ran st
-    /\ yielded (finish_import st) = yielded st /\ List.length (heap (finish_import st)) = List.length (heap st)
-    /\ forall q, attrs_of (finish_import st) q = attrs_of st q.
-  Proof.
-    unfold finish_import. destruct (frames st) as [|f r]; [repeat split; auto|].
-    destruct (f_pend f) as [|id pend]; [repeat split; auto|].
-    simpl. rewrite upd_nth_length. repeat split; auto.
-    intros q. unfold attrs_of, getmod; simpl. apply (nth_upd_nth_proj _ _ m_attrs); auto.
-  Qed.
-
+  (* field lemmas *)
   Lemma raise_reg st x : reg (fst (raiseM st x)) = reg st. Proof. apply raise_fields. Qed.
   Lemma raise_heap st x : heap (fst (raiseM st x)) = heap st. Proof. apply raise_fields. Qed.
   Lemma raise_loads st x : loads (fst (raiseM st x)) = loads st. Proof. apply raise_fields. Qed.
+  Lemma raise_ran st x : ran (fst (raiseM st x)) = ran st. Proof. apply raise_fields. Qed.
   Lemma call_reg st m b : reg (fst (callM st m b)) = reg st. Proof. apply call_closure_fields. Qed.
   Lemma call_heap st m b : heap (fst (callM st m b)) = heap st. Proof. apply call_closure_fields. Qed.
   Lemma call_loads st m b : loads (fst (callM st m b)) = loads st. Proof. apply call_closure_fields. Qed.
-  Lemma push_pend_reg id st : reg (push_pend id st) = reg st. Proof. apply push_pend_fields. Qed.
-  Lemma push_pend_heap id st : heap (push_pend id st) = heap st. Proof. apply push_pend_fields. Qed.
-  Lemma push_pend_loads id st : loads (push_pend id st) = loads st. Proof. apply push_pend_fields. Qed.
-  Lemma push_pend_nframes id st : List.length (frames (push_pend id st)) = List.length (frames st).
-  Proof. apply push_pend_fields. Qed.
-  Lemma finish_reg st : reg (finish_import st) = reg st. Proof. apply finish_import_fields. Qed.
-  Lemma finish_loads st : loads (finish_import st) = loads st. Proof. apply finish_import_fields. Qed.
-  Lemma finish_attrs st q : attrs_of (finish_import st) q = attrs_of st q. Proof. apply finish_import_fields. Qed.
+  Lemma call_ran st m b : ran (fst (callM st m b)) = ran st. Proof. apply call_closure_fields. Qed.
 
-  Ltac fld := simpl; rewrite ?raise_reg, ?raise_heap, ?raise_loads, ?call_reg, ?call_heap, ?call_loads,
-              ?push_pend_reg, ?push_pend_heap, ?push_pend_loads, ?finish_reg, ?finish_loads; simpl; try reflexivity.
+  Lemma attrs_raise st x q : attrs_of (fst (raiseM st x)) q = attrs_of st q.
+  Proof. unfold attrs_of, getmod. now rewrite raise_heap. Qed.
 
-  (* the registry only grows, and only by the import of an unregistered, loadable, compilable path *)
-  Lemma step_reg st e :
-    reg (fst (stepM st e)) = reg st \/
-    exists p s b, e = EStartImport p /\ alookup (reg st) p = None /\ loader p = LoadOk s /\ compiler p s = CompOk b
-                  /\ reg (fst (stepM st e)) = reg st ++ [(p, List.length (heap st))].
+  Lemma raise_active st x h hs :
+    handlers st = h :: hs -> 1 <= h -> frames st <> [] ->
+    exists f, In f (frames st) /\ active (fst (raiseM st x)) = f_mod f.
   Proof.
-    unfold step. destruct (dead st); [left; auto|].
-    destruct e; simpl; try (left; reflexivity).
-    - unfold start_import. destruct (alookup (reg st) p) as [id|] eqn:Er.
-      + left. destruct (m_imported _); [fld|fld].
-      + destruct (loader p) as [s|e] eqn:El; [|left; fld].
-        destruct (compiler p s) as [b|msgs] eqn:Ec; [|left; fld].
-        right. exists p, s, b. repeat split; auto.
-        rewrite get_or_create_none by (simpl; exact Er).
-        set (st3 := push_pend _ _).
-        assert (H3 : reg st3 = reg st ++ [(p, List.length (heap st))]).
-        { unfold st3. destruct (push_pend_fields (List.length (heap (log_load p st))) (log_yield p (List.length (heap (log_load p st))) (created (log_load p st) p))) as [H _].
-          rewrite H. reflexivity. }
-        pose proof (call_closure_fields st3 (List.length (heap (log_load p st))) true) as [H4 _].
-        destruct (callM st3 _ true) as [st4 o]. simpl in H4. destruct o; simpl; rewrite ?H4; auto.
-    - left. fld.
-    - destruct (Nat.ltb _ _); [left; fld|left; auto].
-    - left. destruct (frames st) as [|f0 [|f r]]; auto.
-    - left. fld.
-    - left. destruct (alookup _ x); [auto|fld].
-    - left. destruct (alookup _ x); [auto|fld].
-    - left. destruct (alookup _ x); [auto|fld].
+    intros Eh Hk Hne. unfold raise. rewrite Eh. simpl. unfold top_mod. simpl.
+    pose proof (keep_bottom_nonempty _ _ _ Hk Hne) as Hk'.
+    destruct (keep_bottom h (frames st)) as [|f r] eqn:Ek; [congruence|].
+    exists f. split; auto. apply (keep_bottom_incl _ h). rewrite Ek. left; auto.
   Qed.
 
-  Lemma step_reg_mono st e p id :
-    alookup (reg st) p = Some id -> alookup (reg (fst (stepM st e))) p = Some id.
+  (* what load_and_run does to the fields, for an unregistered path *)
+  Lemma load_and_run_spec st p :
+    alookup (reg st) p = None ->
+    let r := loadrunM st p in
+    loads (fst r) = p :: loads st
+    /\ ((reg (fst r) = reg st /\ heap (fst r) = heap st /\ ran (fst r) = ran st
+         /\ (exists x, snd r = OCaught x \/ snd r = ODead x)
+         /\ ((exists e, loader p = LoadErr e) \/ exists s msgs, loader p = LoadOk s /\ compiler p s = CompErr msgs))
+        \/ (exists s b, loader p = LoadOk s /\ compiler p s = CompOk b
+            /\ reg (fst r) = reg st ++ [(p, List.length (heap st))]
+            /\ List.length (heap (fst r)) = S (List.length (heap st))
+            /\ (forall j, j < List.length (heap st) ->
+                  m_path (getmod (fst r) j) = m_path (getmod st j) /\ m_imported (getmod (fst r) j) = m_imported (getmod st j))
+            /\ ((snd r = OEntered (List.length (heap st)) b /\ ran (fst r) = List.length (heap st) :: ran st
+                 /\ active (fst r) = List.length (heap st))
+                \/ (ran (fst r) = ran st /\ exists x, snd r = OCaught x \/ snd r = ODead x)))).
   Proof.
-    intros H. destruct (step_reg st e) as [E|(q & s & b & _ & _ & _ & _ & E)]; rewrite E; auto.
-    apply alookup_app_some; auto.
+    intros Er r. unfold r, load_and_run.
+    destruct (loader p) as [src|e] eqn:El.
+    2:{ split; [rewrite raise_loads; reflexivity|left]. rewrite raise_reg, raise_heap, raise_ran. simpl.
+        repeat split; auto. eexists; apply raise_outcome. left; eauto. }
+    destruct (compiler p src) as [body|msgs] eqn:Ec.
+    2:{ split; [rewrite raise_loads; reflexivity|left]. rewrite raise_reg, raise_heap, raise_ran. simpl.
+        repeat split; auto. eexists; apply raise_outcome. right; eauto. }
+    rewrite get_or_create_none by (simpl; exact Er).
+    set (st2 := created (log_load p st) p). set (id := List.length (heap (log_load p st))).
+    pose proof (call_closure_fields st2 id true) as (Hr4 & Hh4 & Hl4 & Hran4 & _).
+    assert (HoldP : forall (st' : state) j, heap st' = heap st2 -> j < List.length (heap st) ->
+                    m_path (getmod st' j) = m_path (getmod st j)).
+    { intros st' j Hh Hj. unfold getmod. rewrite Hh. unfold st2, created; simpl. rewrite app_nth1 by exact Hj. auto. }
+    assert (HoldI : forall (st' : state) j, heap st' = heap st2 -> j < List.length (heap st) ->
+                    m_imported (getmod st' j) = m_imported (getmod st j)).
+    { intros st' j Hh Hj. unfold getmod. rewrite Hh. unfold st2, created; simpl. rewrite app_nth1 by exact Hj. auto. }
+    destruct (callM st2 id true) as [st4 o] eqn:Ecall. simpl in Hr4, Hh4, Hl4, Hran4.
+    assert (Hlen2 : List.length (heap st2) = S (List.length (heap st))).
+    { unfold st2, created; simpl. rewrite app_length; simpl. lia. }
+    assert (Hh42 : heap st4 = heap st2) by exact Hh4.
+    assert (Hnot : forall x, (o = OCaught x \/ o = ODead x \/ o = ONone) \/ True) by (intros; right; exact I).
+    destruct o.
+    - (* ONone *)
+      destruct (call_closure_none _ _ _ _ Ecall) as [E4 _].
+      assert (Hact : active st4 = id) by (rewrite E4; reflexivity).
+      simpl. rewrite Hact, Nat.eqb_refl, orb_true_r. simpl. rewrite upd_nth_length.
+      split; [rewrite Hl4; reflexivity|right]. exists src, body. rewrite Hr4, Hh4, Hran4.
+      split; [auto|]. split; [auto|]. split; [auto|]. split; [rewrite app_length; simpl; lia|].
+      split.
+      + intros j Hj. unfold init_builtins. rewrite getmod_upd_attrs_path, getmod_upd_attrs_imported.
+        split; [apply HoldP|apply HoldI]; auto.
+      + left. split; [reflexivity|]. split; [reflexivity|exact Hact].
+    - exfalso. pose proof (raise_outcome st2 (XErr (mkerr KIndex [stack_overflow_msg]))) as Hro.
+      unfold call_closure in Ecall. destruct (Nat.eqb _ _); [|inversion Ecall].
+      rewrite Ecall in Hro. simpl in Hro. destruct Hro; discriminate.
+    - exfalso. pose proof (raise_outcome st2 (XErr (mkerr KIndex [stack_overflow_msg]))) as Hro.
+      unfold call_closure in Ecall. destruct (Nat.eqb _ _); [|inversion Ecall].
+      rewrite Ecall in Hro. simpl in Hro. destruct Hro; discriminate.
+    - exfalso. pose proof (raise_outcome st2 (XErr (mkerr KIndex [stack_overflow_msg]))) as Hro.
+      unfold call_closure in Ecall. destruct (Nat.eqb _ _); [|inversion Ecall].
+      rewrite Ecall in Hro. simpl in Hro. destruct Hro; discriminate.
+    - (* OCaught *)
+      simpl. split.
+      + destruct (negb grd || Nat.eqb (active st4) id); simpl; rewrite Hl4; reflexivity.
+      + right. exists src, body. split; [auto|]. split; [auto|].
+        destruct (negb grd || Nat.eqb (active st4) id); simpl; rewrite ?upd_nth_length, Hr4, Hh4, Hran4.
+        * split; [auto|]. split; [rewrite app_length; simpl; lia|]. split.
+          -- intros j Hj. unfold init_builtins. rewrite getmod_upd_attrs_path, getmod_upd_attrs_imported.
+             split; [apply HoldP|apply HoldI]; auto.
+          -- right. split; auto. eexists; left; reflexivity.
+        * split; [auto|]. split; [rewrite app_length; simpl; lia|]. split.
+          -- intros j Hj. split; [apply HoldP|apply HoldI]; auto.
+          -- right. split; auto. eexists; left; reflexivity.
+    - (* ODead *)
+      simpl. split; [rewrite Hl4; reflexivity|right]. exists src, body. rewrite Hr4, Hh4, Hran4.
+      split; [auto|]. split; [auto|]. split; [auto|]. split; [rewrite app_length; simpl; lia|]. split.
+      + intros j Hj. split; [apply HoldP|apply HoldI]; auto.
+      + right. split; auto. eexists; right; reflexivity.
   Qed.
-
-  (* the loader is called only by the import of an unregistered path *)
-  Lemma step_loads st e :
-    loads (fst (stepM st e)) = loads st \/
-    exists p, e = EStartImport p /\ alookup (reg st) p = None /\ loads (fst (stepM st e)) = p :: loads st.
-  Proof.
-    unfold step. destruct (dead st); [left; auto|].
-    destruct e; simpl; try (left; reflexivity).
-    - unfold start_import. destruct (alookup (reg st) p) as [id|] eqn:Er.
-      + left. destruct (m_imported _); [fld|fld].
-      + right. exists p. repeat split; auto.
-        destruct (loader p) as [s|e] eqn:El; [|fld].
-        destruct (compiler p s) as [b|msgs] eqn:Ec; [|fld].
-        rewrite get_or_create_none by (simpl; exact Er).
-        set (st3 := push_pend _ _).
-        assert (H3 : loads st3 = p :: loads st).
-        { unfold st3. destruct (push_pend_fields (List.length (heap (log_load p st))) (log_yield p (List.length (heap (log_load p st))) (created (log_load p st) p))) as (_ & _ & H & _).
-          rewrite H. reflexivity. }
-        pose proof (call_closure_fields st3 (List.length (heap (log_load p st))) true) as (_ & _ & H4 & _).
-        destruct (callM st3 _ true) as [st4 o]. simpl in H4. destruct o; simpl; rewrite ?H4; auto.
-    - left. fld.
-    - destruct (Nat.ltb _ _); [left; fld|left; auto].
-    - left. destruct (frames st) as [|f0 [|f r]]; auto.
-    - left. fld.
-    - left. destruct (alookup _ x); [auto|fld].
-    - left. destruct (alookup _ x); [auto|fld].
-    - left. destruct (alookup _ x); [auto|fld].
-  Qed.
-
-  Definition compilable (p : path) : Prop := exists s b, loader p = LoadOk s /\ compiler p s = CompOk b.
-
-  Definition loads_ok (st : state) : Prop :=
-    forall p, compilable p ->
-      count_occ string_dec (loads st) p <= 1 /\ (In p (loads st) -> alookup (reg st) p <> None).
-
-  Lemma step_loads_ok st e : loads_ok st -> loads_ok (fst (stepM st e)).
-  Proof.
-    intros L p Hc. destruct (L p Hc) as [L1 L2].
-    destruct (step_loads st e) as [E|(q & -> & Hq & E)]; rewrite E.
-    - split; auto. intros Hin Hn. apply (L2 Hin).
-      destruct (alookup (reg st) p) eqn:Ep; auto.
-      rewrite (step_reg_mono _ _ _ _ Ep) in Hn. discriminate.
-    - destruct (string_dec q p) as [->|Hne].
-      + assert (Hnin : ~ In p (loads st)) by (intros Hin; apply (L2 Hin); auto).
-        split.
-        * simpl. destruct (string_dec p p); [|congruence].
-          apply (count_occ_not_In string_dec) in Hnin. lia.
-        * intros _. destruct Hc as (s & b & Hl & Hcm).
-          destruct (step_reg st (EStartImport p)) as [Er|(q & s' & b' & Eq & _ & _ & _ & Er)].
-          -- exfalso.
-             assert (Hd : dead st = None).
-             { destruct (dead st) eqn:Ed; auto. exfalso. unfold step in E. rewrite Ed in E. simpl in E.
-               assert (Hlen : List.length (loads st) = List.length (p :: loads st)) by (rewrite <- E; reflexivity).
-               simpl in Hlen. lia. }
-             revert Er. unfold step. rewrite Hd.
-             simpl. unfold start_import. rewrite Hq, Hl, Hcm.
-             rewrite get_or_create_none by (simpl; exact Hq).
-             set (st3 := push_pend _ _).
-             assert (H3 : reg st3 = reg st ++ [(p, List.length (heap st))]).
-             { unfold st3. destruct (push_pend_fields (List.length (heap (log_load p st))) (log_yield p (List.length (heap (log_load p st))) (created (log_load p st) p))) as [H _].
-               rewrite H. reflexivity. }
-             pose proof (call_closure_fields st3 (List.length (heap (log_load p st))) true) as [H4 _].
-             destruct (callM st3 _ true) as [st4 o]. simpl in H4.
-             intros Er.
-             assert (Hlen : List.length (reg st ++ [(p, List.length (heap st))]) = List.length (reg st)).
-             { rewrite <- H3, <- H4. destruct o; simpl in Er; rewrite Er; reflexivity. }
-             rewrite app_length in Hlen. simpl in Hlen. lia.
-          -- inversion Eq; subst q. rewrite Er. rewrite (alookup_app_none _ _ _ _ _ Hq).
-             rewrite String.eqb_refl. discriminate.
-      + split.
-        * simpl. destruct (string_dec q p); [congruence|auto].
-        * intros [Hin|Hin]; [congruence|]. intros Hn. apply (L2 Hin).
-          destruct (alookup (reg st) p) eqn:Ep; auto.
-          rewrite (step_reg_mono _ _ _ _ Ep) in Hn. discriminate.
-  Qed.
-
-  Lemma run_loads_ok evs : forall st, loads_ok st -> loads_ok (runM st evs).
-  Proof. induction evs as [|e evs IH]; simpl; intros st L; auto. apply IH, step_loads_ok; auto. Qed.
 
   Lemma NoDup_map_in A B (f : A -> B) (l : list A) :
     (forall x y, In x l -> In y l -> f x = f y -> x = y) -> NoDup l -> NoDup (map f l).
@@ -727,6 +686,327 @@ Section Proofs.
     - intros Hin. apply in_map_iff in Hin. destruct Hin as (y & Hy & Hin).
       assert (y = a) by (apply Hinj; simpl; auto). subst. auto.
     - apply IH. intros x y Hx Hy. apply Hinj; simpl; auto.
+  Qed.
+
+  (* ============================================================================================ *)
+  (* one-step theorems *)
+
+  (* a body is started (and the loader asked) only for a path that is unregistered, or whose registered object
+     is the leftover of a failed import: not imported and its body not on the frame stack *)
+  Definition absent_or_failed (st : state) (p : path) : Prop :=
+    alookup (reg st) p = None
+    \/ exists old, alookup (reg st) p = Some old /\ m_imported (getmod st old) = false /\ is_loading st old = false
+                   /\ chk = true.
+
+  Theorem body_starts_only_if_absent_or_failed st p st' id b :
+    dead st = None -> stepM st (EStartImport p) = (st', OEntered id b) ->
+    absent_or_failed st p /\ id = List.length (heap st) /\ ran st' = id :: ran st /\ loads st' = p :: loads st
+    /\ alookup (reg st') p = Some id /\ active st' = id.
+  Proof.
+    intros Hd. unfold step. rewrite Hd. unfold start_import.
+    assert (Hlr : forall st0, alookup (reg st0) p = None -> heap st0 = heap st -> ran st0 = ran st -> loads st0 = loads st ->
+                  loadrunM st0 p = (st', OEntered id b) ->
+                  id = List.length (heap st) /\ ran st' = id :: ran st /\ loads st' = p :: loads st
+                  /\ alookup (reg st') p = Some id /\ active st' = id).
+    { intros st0 Hn Hh Hr Hl E. pose proof (load_and_run_spec st0 p Hn) as H. simpl in H. rewrite E in H. simpl in H.
+      destruct H as [Hld [(_ & _ & _ & (x & Hx) & _)|(s & b' & _ & _ & Hreg & _ & _ & [(Ho & Hran & Hact)|(_ & x & Hx)])]].
+      - destruct Hx; discriminate.
+      - inversion Ho; subst. rewrite Hh, Hr in *. rewrite Hl in Hld. repeat split; auto.
+        rewrite Hreg. rewrite (alookup_app_none _ _ _ _ _ Hn). now rewrite String.eqb_refl.
+      - destruct Hx; discriminate. }
+    destruct (alookup (reg st) p) as [old|] eqn:Er.
+    - destruct (m_imported (getmod st old)) eqn:Ei; [intros E; inversion E|].
+      destruct (negb chk || is_loading st old) eqn:El.
+      + intros E. destruct (raise_outcome st (XErr (mkerr KImport [cyc_msg p]))) as [H|H]; rewrite E in H; discriminate.
+      + apply orb_false_iff in El. destruct El as [Hc El]. apply negb_false_iff in Hc.
+        intros E. split; [right; exists old; auto|].
+        apply (Hlr (set_reg st (aremove (reg st) p))); auto.
+        simpl. rewrite alookup_aremove, String.eqb_refl. reflexivity.
+    - intros E. split; [left; auto|]. apply (Hlr st); auto.
+  Qed.
+
+  Theorem loader_called_only_if_absent_or_failed st e :
+    loads (fst (stepM st e)) = loads st
+    \/ exists p, e = EStartImport p /\ loads (fst (stepM st e)) = p :: loads st /\ absent_or_failed st p.
+  Proof.
+    unfold step. destruct (dead st); [left; auto|].
+    destruct e; simpl; try (left; reflexivity).
+    - unfold start_import. destruct (alookup (reg st) p) as [old|] eqn:Er.
+      + destruct (m_imported (getmod st old)) eqn:Ei; [left; reflexivity|].
+        destruct (negb chk || is_loading st old) eqn:El; [left; apply raise_loads|].
+        apply orb_false_iff in El. destruct El as [Hc El]. apply negb_false_iff in Hc.
+        right. exists p. split; auto. split; [|right; exists old; auto].
+        assert (Hn : alookup (reg (set_reg st (aremove (reg st) p))) p = None)
+          by (simpl; rewrite alookup_aremove, String.eqb_refl; reflexivity).
+        apply (load_and_run_spec _ p Hn).
+      + right. exists p. split; auto. split; [|left; auto]. apply (load_and_run_spec st p Er).
+    - destruct (Nat.ltb _ _); [left; apply call_loads|left; auto].
+    - left. destruct (frames st) as [|f0 [|f r]]; auto. destruct (f_body f0); reflexivity.
+    - left. apply raise_loads.
+    - left. destruct (alookup _ x); [auto|apply raise_loads].
+    - left. destruct (alookup _ x); [auto|apply raise_loads].
+    - left. destruct (alookup _ x); [auto|apply raise_loads].
+  Qed.
+
+  (* a module that finished loading: registered and imported *)
+  Definition settled (st : state) (p : path) (id : nat) : Prop :=
+    alookup (reg st) p = Some id /\ m_imported (getmod st id) = true.
+
+  Theorem settled_import_is_cached st p id :
+    dead st = None -> settled st p id -> stepM st (EStartImport p) = (log_yield p id st, OModule id).
+  Proof. intros Hd [Hr Hi]. unfold step, start_import. rewrite Hd, Hr, Hi. reflexivity. Qed.
+
+  Lemma set_imported_mono st id j :
+    m_imported (getmod st j) = true -> m_imported (getmod (set_imported st id) j) = true.
+  Proof.
+    intros Hj. unfold set_imported, getmod; simpl. destruct (Nat.eq_dec j id) as [->|Hne].
+    - destruct (Nat.lt_ge_cases id (List.length (heap st))) as [Hlt|Hge].
+      + now rewrite nth_upd_nth_eq.
+      + unfold getmod in Hj. rewrite nth_overflow in Hj by lia. discriminate.
+    - now rewrite nth_upd_nth_neq.
+  Qed.
+
+  (* once settled, settled for ever: by the two theorems above it is never loaded or run again *)
+  Theorem settled_step st e p id : Inv st -> settled st p id -> settled (fst (stepM st e)) p id.
+  Proof.
+    intros I [Hr Hi]. pose proof (i_reg1 _ I _ _ Hr) as [Hlt _].
+    assert (Hraise : forall st0 x, settled st0 p id -> settled (fst (raiseM st0 x)) p id).
+    { intros st0 x [H1 H2]. unfold settled, getmod. rewrite raise_reg, raise_heap. auto. }
+    assert (Hupd : forall i f, settled (upd_attrs st i f) p id).
+    { intros i f. split; [exact Hr|]. rewrite getmod_upd_attrs_imported. exact Hi. }
+    unfold step. destruct (dead st); [split; auto|].
+    destruct e; simpl; auto.
+    - unfold start_import. destruct (alookup (reg st) p0) as [old|] eqn:Er.
+      + destruct (m_imported (getmod st old)) eqn:Ei; [split; auto|].
+        destruct (negb chk || is_loading st old); [apply Hraise; split; auto|].
+        assert (Hne : p0 <> p) by (intros ->; rewrite Hr in Er; inversion Er; subst; congruence).
+        assert (Hn : alookup (reg (set_reg st (aremove (reg st) p0))) p0 = None)
+          by (simpl; rewrite alookup_aremove, String.eqb_refl; reflexivity).
+        pose proof (load_and_run_spec _ p0 Hn) as [_ H]. simpl in H.
+        assert (Hr0 : alookup (aremove (reg st) p0) p = Some id).
+        { rewrite alookup_aremove. destruct (String.eqb p0 p) eqn:E; auto. apply String.eqb_eq in E. congruence. }
+        destruct H as [(H1 & H2 & _)|(s & b & _ & _ & H1 & _ & H3 & _)].
+        * unfold settled, getmod. rewrite H1, H2. simpl. auto.
+        * split; [rewrite H1; simpl; apply alookup_app_some; auto|].
+          destruct (H3 id Hlt) as [_ H4]. rewrite H4. exact Hi.
+      + assert (Hne : p0 <> p) by (intros ->; congruence).
+        pose proof (load_and_run_spec st p0 Er) as [_ H]. simpl in H.
+        destruct H as [(H1 & H2 & _)|(s & b & _ & _ & H1 & _ & H3 & _)].
+        * unfold settled, getmod. rewrite H1, H2. auto.
+        * split; [rewrite H1; apply alookup_app_some; auto|].
+          destruct (H3 id Hlt) as [_ H4]. rewrite H4. exact Hi.
+    - destruct (Nat.ltb _ _); [|split; auto]. unfold settled, getmod. rewrite call_reg, call_heap. auto.
+    - destruct (frames st) as [|f0 [|f r]]; try (split; auto; fail).
+      destruct (f_body f0); simpl; [|split; auto].
+      split; [exact Hr|]. apply (set_imported_mono (load_frame (set_frames st (f :: r)))). exact Hi.
+    - apply Hraise; split; auto.
+    - split; auto.
+    - split; auto.
+    - destruct (alookup _ x); [split; auto|apply Hraise; split; auto].
+    - destruct (alookup _ x); [apply Hupd|apply Hraise; split; auto].
+    - destruct (alookup _ x); [split; auto|apply Hraise; split; auto].
+  Qed.
+
+  Theorem settled_forever evs : forall st p id, Inv st -> settled st p id -> settled (runM st evs) p id.
+  Proof.
+    induction evs as [|e evs IH]; simpl; intros st p id I H; auto.
+    apply IH; [apply step_inv; auto|apply settled_step; auto].
+  Qed.
+
+  (* T3: importing a registered, not imported module whose body is on the frame stack is a cycle ImportError *)
+  Theorem cycle_is_import_error st p id :
+    dead st = None -> alookup (reg st) p = Some id -> m_imported (getmod st id) = false -> is_loading st id = true ->
+    stepM st (EStartImport p) = raiseM st (XErr (mkerr KImport [cyc_msg p])).
+  Proof. intros Hd Hr Hi Hl. unfold step, start_import. rewrite Hd, Hr, Hi, Hl, orb_true_r. reflexivity. Qed.
+
+  (* ... a leftover of a failed import is removed and the module loaded afresh (the code since 367eb72) *)
+  Theorem failed_import_is_retried st p old :
+    chk = true -> dead st = None -> alookup (reg st) p = Some old -> m_imported (getmod st old) = false ->
+    is_loading st old = false ->
+    stepM st (EStartImport p) = loadrunM (set_reg st (aremove (reg st) p)) p.
+  Proof. intros Hc Hd Hr Hi Hl. unfold step, start_import. rewrite Hd, Hr, Hi, Hl, Hc. reflexivity. Qed.
+
+  (* an exception is delivered to the innermost handler (catchable) or ends the run with that error *)
+  Theorem raise_delivers st x :
+    (exists h hs, handlers st = h :: hs /\ snd (raiseM st x) = OCaught x /\ dead (fst (raiseM st x)) = dead st
+                  /\ handlers (fst (raiseM st x)) = hs
+                  /\ List.length (frames (fst (raiseM st x))) <= h)
+    \/ (handlers st = [] /\ snd (raiseM st x) = ODead x /\ dead (fst (raiseM st x)) = Some x).
+  Proof.
+    unfold raise. destruct (handlers st) as [|h hs] eqn:Eh; [right; simpl; auto|].
+    left. exists h, hs. simpl. repeat split; auto.
+    unfold keep_bottom. rewrite skipn_length. lia.
+  Qed.
+
+  (* T4: a module that cannot be found / does not compile *)
+  Theorem failed_load_is_import_error st p e :
+    dead st = None -> alookup (reg st) p = None -> loader p = LoadErr e ->
+    stepM st (EStartImport p) = raiseM (log_load p st) (XErr e).
+  Proof. intros Hd Hr Hl. unfold step, start_import, load_and_run. rewrite Hd, Hr, Hl. reflexivity. Qed.
+
+  Theorem failed_compile_is_import_error st p s msgs :
+    dead st = None -> alookup (reg st) p = None -> loader p = LoadOk s -> compiler p s = CompErr msgs ->
+    stepM st (EStartImport p)
+    = raiseM (log_load p st) (XErr (mkerr KImport (comp_head :: map (append comp_indent) msgs))).
+  Proof. intros Hd Hr Hl Hc. unfold step, start_import, load_and_run. rewrite Hd, Hr, Hl, Hc. reflexivity. Qed.
+
+  Theorem failed_import_registers_nothing st p :
+    dead st = None ->
+    (exists id, alookup (reg st) p = Some id /\ m_imported (getmod st id) = false /\ is_loading st id = true)
+    \/ (alookup (reg st) p = None /\ ((exists e, loader p = LoadErr e) \/ exists s msgs, loader p = LoadOk s /\ compiler p s = CompErr msgs)) ->
+    let st' := fst (stepM st (EStartImport p)) in
+    reg st' = reg st /\ heap st' = heap st /\ ran st' = ran st /\ yielded st' = yielded st
+    /\ exists x, snd (stepM st (EStartImport p)) = OCaught x \/ snd (stepM st (EStartImport p)) = ODead x.
+  Proof.
+    intros Hd [(id & Hr & Hi & Hl)|[Hr [(e & Hl)|(s & msgs & Hl & Hc)]]] st'; unfold st'.
+    - rewrite (cycle_is_import_error st p id Hd Hr Hi Hl).
+      destruct (raise_fields st (XErr (mkerr KImport [cyc_msg p]))) as (H1 & H2 & _ & H3 & H4).
+      repeat split; auto. eexists. apply raise_outcome.
+    - rewrite (failed_load_is_import_error st p e Hd Hr Hl).
+      destruct (raise_fields (log_load p st) (XErr e)) as (H1 & H2 & _ & H3 & H4).
+      repeat split; auto. eexists. apply raise_outcome.
+    - rewrite (failed_compile_is_import_error st p s msgs Hd Hr Hl Hc).
+      destruct (raise_fields (log_load p st) (XErr (mkerr KImport (comp_head :: map (append comp_indent) msgs)))) as (H1 & H2 & _ & H3 & H4).
+      repeat split; auto. eexists. apply raise_outcome.
+  Qed.
+
+  (* T5 (one step) *)
+  Theorem call_enters_defining_module st m :
+    dead st = None -> m < List.length (heap st) -> List.length (frames st) <> frames_max ->
+    let st' := fst (stepM st (ECall m)) in
+    frames st' = mkframe m false :: frames st /\ active st' = m /\ top_mod st' = m.
+  Proof.
+    intros Hd Hlt Hne st'. unfold st', step. rewrite Hd.
+    apply Nat.ltb_lt in Hlt. rewrite Hlt. unfold call_closure.
+    apply Nat.eqb_neq in Hne. rewrite Hne. simpl. auto.
+  Qed.
+
+  Theorem return_restores_caller_module st f0 f r :
+    dead st = None -> frames st = f0 :: f :: r ->
+    let st' := fst (stepM st EReturn) in frames st' = f :: r /\ active st' = f_mod f.
+  Proof. intros Hd Hf st'. unfold st', step. rewrite Hd, Hf. destruct (f_body f0); simpl; auto. Qed.
+
+  Theorem global_read_is_local st x :
+    dead st = None -> active st = top_mod st ->
+    stepM st (EGetGlobal x) =
+    match alookup (attrs_of st (top_mod st)) x with
+    | Some v => (st, OValue v)
+    | None => raiseM st (XErr (mkerr KName [undefined_variable x]))
+    end.
+  Proof. intros Hd Ha. unfold step. rewrite Hd, Ha. reflexivity. Qed.
+
+  Theorem global_write_is_local st x v q :
+    active st = top_mod st -> q <> top_mod st ->
+    attrs_of (fst (stepM st (ESetGlobal x v))) q = attrs_of st q
+    /\ attrs_of (fst (stepM st (EDefineGlobal x v))) q = attrs_of st q.
+  Proof.
+    intros Ha Hq. unfold step. destruct (dead st); [auto|]. rewrite Ha. split.
+    - destruct (alookup _ x); [|apply attrs_raise]. simpl. apply attrs_upd_attrs_other; auto.
+    - simpl. apply attrs_upd_attrs_other; auto.
+  Qed.
+
+  Lemma attrs_set_imported st id q : attrs_of (set_imported st id) q = attrs_of st q.
+  Proof. unfold attrs_of, set_imported, getmod; simpl. apply (nth_upd_nth_proj _ _ m_attrs); auto. Qed.
+
+  (* the attributes of an existing module change only through its own globals or an attribute write naming it;
+     an import touches only the module object it creates (with the guarded built-ins initialisation) *)
+  Theorem attrs_frame st e q :
+    Inv st -> q < List.length (heap st) ->
+    match e with
+    | ESetGlobal _ _ | EDefineGlobal _ _ => active st <> q
+    | ESetAttr m _ _ => m <> q
+    | EStartImport _ => grd = true \/ List.length (frames st) <> frames_max
+    | _ => True
+    end ->
+    attrs_of (fst (stepM st e)) q = attrs_of st q.
+  Proof.
+    intros I Hq He. unfold step. destruct (dead st); [auto|].
+    destruct e; simpl.
+    - assert (Hlr : forall st0, Inv st0 -> alookup (reg st0) p = None -> heap st0 = heap st -> frames st0 = frames st ->
+                    handlers st0 = handlers st ->
+                    attrs_of (fst (loadrunM st0 p)) q = attrs_of st q).
+      { intros st0 I0 Hn Hh Hf Hhd. unfold load_and_run.
+        destruct (loader p) as [s|e]; [|rewrite attrs_raise; unfold attrs_of, getmod; simpl; rewrite Hh; reflexivity].
+        destruct (compiler p s) as [b|msgs]; [|rewrite attrs_raise; unfold attrs_of, getmod; simpl; rewrite Hh; reflexivity].
+        rewrite get_or_create_none by (simpl; exact Hn).
+        set (st2 := created (log_load p st0) p). set (id := List.length (heap (log_load p st0))).
+        assert (Hid : id = List.length (heap st)) by (unfold id; simpl; rewrite Hh; reflexivity).
+        assert (Hq2 : attrs_of st2 q = attrs_of st q).
+        { unfold attrs_of, getmod, st2, created; simpl. rewrite Hh. now rewrite app_nth1. }
+        pose proof (call_heap st2 id true) as Hh4.
+        destruct (callM st2 id true) as [st4 o] eqn:Ec. simpl in Hh4.
+        assert (H4 : attrs_of st4 q = attrs_of st q) by (unfold attrs_of, getmod in *; rewrite Hh4; exact Hq2).
+        destruct o; simpl; auto.
+        - destruct (call_closure_none _ _ _ _ Ec) as [E4 _].
+          assert (Hact : active st4 = id) by (rewrite E4; reflexivity).
+          rewrite Hact, Nat.eqb_refl, orb_true_r. unfold init_builtins.
+          rewrite attrs_upd_attrs_other by lia. exact H4.
+        - (* frame limit, handled *)
+          unfold call_closure in Ec. destruct (Nat.eqb (List.length (frames st2)) frames_max) eqn:El; [|inversion Ec].
+          destruct He as [Hg|Hne].
+          + rewrite Hg. simpl.
+            assert (Hact : active st4 <> id).
+            { destruct (handlers st2) as [|h hs] eqn:Eh.
+              - unfold raise in Ec. rewrite Eh in Ec. inversion Ec.
+              - assert (Hk : 1 <= h).
+                { apply (i_hand _ I0). unfold st2 in Eh; simpl in Eh. rewrite Eh. left; auto. }
+                destruct (raise_active st2 (XErr (mkerr KIndex [stack_overflow_msg])) h hs Eh Hk (i_fr_ne _ I0)) as (f & Hf1 & Hf2).
+                rewrite Ec in Hf2. simpl in Hf2. rewrite Hf2.
+                pose proof (i_fr_ok _ I0 f Hf1) as Hlt. rewrite Hh in Hlt. lia. }
+            apply Nat.eqb_neq in Hact. rewrite Hact. exact H4.
+          + exfalso. apply Hne. apply Nat.eqb_eq in El. unfold st2 in El; simpl in El. rewrite Hf in El. exact El. }
+      unfold start_import. destruct (alookup (reg st) p) as [old|] eqn:Er; [|apply Hlr; auto].
+      destruct (m_imported (getmod st old)) eqn:Ei; [reflexivity|].
+      destruct (negb chk || is_loading st old) eqn:El; [apply attrs_raise|].
+      apply orb_false_iff in El. destruct El as [_ El].
+      apply Hlr; auto.
+      + apply (unregister_inv st p old); auto.
+      + simpl. rewrite alookup_aremove, String.eqb_refl. reflexivity.
+    - destruct (Nat.ltb _ _); auto. unfold attrs_of, getmod. now rewrite call_heap.
+    - destruct (frames st) as [|f0 [|f r]]; auto. destruct (f_body f0); simpl; auto.
+      change (attrs_of (set_imported (load_frame (set_frames st (f :: r))) (f_mod f0)) q = attrs_of st q).
+      rewrite attrs_set_imported. reflexivity.
+    - apply attrs_raise.
+    - reflexivity.
+    - reflexivity.
+    - destruct (alookup _ x); [auto|apply attrs_raise].
+    - destruct (alookup _ x); [|apply attrs_raise]. simpl. apply attrs_upd_attrs_other; auto.
+    - apply attrs_upd_attrs_other; auto.
+    - destruct (alookup _ x); [auto|apply attrs_raise].
+    - apply attrs_upd_attrs_other; auto.
+  Qed.
+
+  Lemma alookup_fold_ainsert_other (names : list name) (a : list (name * value)) c :
+    ~ In c names -> alookup (fold_left (fun acc b => ainsert acc b (VBuiltin b)) names a) c = alookup a c.
+  Proof.
+    revert a; induction names as [|n names IH]; simpl; intros a H; auto.
+    rewrite IH by tauto. apply alookup_ainsert_other. intros ->; tauto.
+  Qed.
+
+  (* a fresh module starts with exactly the names init_built_in_globals defines *)
+  Theorem fresh_module_has_only_builtins st p s b :
+    dead st = None -> alookup (reg st) p = None -> loader p = LoadOk s -> compiler p s = CompOk b ->
+    List.length (frames st) <> frames_max ->
+    let st' := fst (stepM st (EStartImport p)) in
+    snd (stepM st (EStartImport p)) = OEntered (List.length (heap st)) b
+    /\ active st' = List.length (heap st)
+    /\ forall c, ~ In c builtin_names -> alookup (attrs_of st' (List.length (heap st))) c = None.
+  Proof.
+    intros Hd Hr Hl Hc Hne st'. unfold st', step, start_import, load_and_run. rewrite Hd, Hr, Hl, Hc.
+    rewrite get_or_create_none by (simpl; exact Hr).
+    set (id := List.length (heap (log_load p st))).
+    set (st2 := created (log_load p st) p).
+    unfold call_closure. apply Nat.eqb_neq in Hne.
+    change (List.length (frames st2)) with (List.length (frames st)). rewrite Hne.
+    cbn [fst snd]. change (active (log_ran id (load_frame (set_frames st2 (mkframe id true :: frames st2))))) with id.
+    rewrite Nat.eqb_refl, orb_true_r.
+    split; [reflexivity|]. split; [reflexivity|].
+    intros c Hc'. unfold init_builtins.
+    assert (Hlt : id < List.length (heap st2)) by (unfold st2, created; simpl; rewrite app_length; unfold id; simpl; lia).
+    rewrite attrs_upd_attrs_same by exact Hlt.
+    rewrite alookup_fold_ainsert_other by exact Hc'.
+    unfold attrs_of, getmod; simpl. rewrite app_nth2 by (unfold id; simpl; lia).
+    unfold id; simpl. rewrite Nat.sub_diag. reflexivity.
   Qed.
 
   (* ============================================================================================ *)
@@ -739,51 +1019,49 @@ Section Proofs.
   Lemma run_init_inv evs : Inv (runM init evs).
   Proof. apply run_inv, init_inv; auto. Qed.
 
-  (* T1: a module's top-level code is started at most once: per module object and per path *)
+  (* T1: per module object a body is started at most once; a started body whose object is not the registered
+     object of its path belongs to a FAILED import (never imported, not running); so among the bodies that
+     are running or finished no path occurs twice *)
   Theorem body_runs_at_most_once evs :
     let st := runM init evs in
-    NoDup (ran st) /\ NoDup (map (fun id => m_path (getmod st id)) (ran st)).
+    NoDup (ran st)
+    /\ (forall id, In id (ran st) -> registered st id \/ (m_imported (getmod st id) = false /\ is_loading st id = false))
+    /\ (forall i j, In i (ran st) -> In j (ran st) -> registered st i -> registered st j ->
+                    m_path (getmod st i) = m_path (getmod st j) -> i = j).
   Proof.
-    intros st. pose proof (run_init_inv evs) as I. fold st in I. split; [apply (i_ran_nd _ I)|].
-    apply NoDup_map_in; [|apply (i_ran_nd _ I)].
-    intros x y Hx Hy E.
-    pose proof (i_reg2 _ I x (i_ran_lt _ I x Hx)) as H1.
-    pose proof (i_reg2 _ I y (i_ran_lt _ I y Hy)) as H2.
-    rewrite E in H1. rewrite H1 in H2. congruence.
+    intros st. pose proof (run_init_inv evs) as I. fold st in I.
+    split; [apply (i_ran_nd _ I)|]. split; [apply (i_ran_ok _ I)|].
+    intros i j _ _ Hi Hj E. unfold registered in *. rewrite E in Hi. congruence.
   Qed.
 
-  (* the host loader is asked at most once for a module that loads and compiles *)
-  Theorem loaded_at_most_once evs p :
-    compilable p -> count_occ string_dec (loads (runM init evs)) p <= 1.
-  Proof.
-    intros Hc. apply (run_loads_ok evs init); auto.
-    intros q _. simpl. split; [lia|tauto].
-  Qed.
+  (* a module that finished loading is never loaded or run again: it stays settled, and in a settled state
+     the import is the cached arm (settled_import_is_cached) *)
+  Theorem loaded_module_is_settled evs1 evs2 p id :
+    settled (runM init evs1) p id -> settled (runM (runM init evs1) evs2) p id.
+  Proof. intros H. apply settled_forever; auto. apply run_init_inv. Qed.
 
-  (* T2: every import of a path yields the same module object, and objects of different paths differ *)
+  (* every completed import statement was given the registered, imported object of its path *)
+  Theorem yielded_is_settled evs p id :
+    let st := runM init evs in In (p, id) (yielded st) -> settled st p id.
+  Proof. intros st H. apply (i_yield _ (run_init_inv evs)); auto. Qed.
+
+  (* T2: every (completed) import of a path yields the same module object, and objects of different paths differ *)
   Theorem same_module_object evs p i j :
     let st := runM init evs in In (p, i) (yielded st) -> In (p, j) (yielded st) -> i = j.
   Proof.
     intros st Hi Hj. pose proof (run_init_inv evs) as I. fold st in I.
-    pose proof (i_yield _ I _ _ Hi). pose proof (i_yield _ I _ _ Hj). congruence.
+    destruct (i_yield _ I _ _ Hi). destruct (i_yield _ I _ _ Hj). congruence.
   Qed.
 
   Theorem module_object_determines_path evs p q i :
     let st := runM init evs in In (p, i) (yielded st) -> In (q, i) (yielded st) -> p = q.
   Proof.
     intros st Hi Hj. pose proof (run_init_inv evs) as I. fold st in I.
-    destruct (i_reg1 _ I _ _ (i_yield _ I _ _ Hi)) as [_ H1].
-    destruct (i_reg1 _ I _ _ (i_yield _ I _ _ Hj)) as [_ H2]. congruence.
+    destruct (i_yield _ I _ _ Hi) as [H1 _]. destruct (i_yield _ I _ _ Hj) as [H2 _].
+    destruct (i_reg1 _ I _ _ H1) as [_ E1]. destruct (i_reg1 _ I _ _ H2) as [_ E2]. congruence.
   Qed.
 
-  (* T3: importing a registered module whose `imported` flag is still false is a cycle ImportError;
-     nothing is loaded, run, registered or yielded *)
-  Theorem cycle_is_import_error st p id :
-    dead st = None -> alookup (reg st) p = Some id -> m_imported (getmod st id) = false ->
-    stepM st (EStartImport p) = raiseM st (XErr (mkerr KImport [cyc_msg p])).
-  Proof. intros Hd Hr Hi. unfold step, start_import. rewrite Hd, Hr, Hi. reflexivity. Qed.
-
-  (* ... and a module whose body is on the frame stack (still being loaded) is in that situation *)
+  (* T3: a module whose body is on the frame stack (self import, 2-, 3-, n-cycles) *)
   Theorem loading_module_is_cycle_error evs f :
     let st := runM init evs in
     dead st = None -> In f (frames st) -> f_body f = true ->
@@ -791,58 +1069,9 @@ Section Proofs.
     stepM st (EStartImport p) = raiseM st (XErr (mkerr KImport [cyc_msg p])).
   Proof.
     intros st Hd Hf Hb p. pose proof (run_init_inv evs) as I. fold st in I.
-    destruct (i_fr_ok _ I f Hf) as [Hlt _].
+    destruct (i_loading _ I f Hf Hb) as [Hr Hi].
     apply (cycle_is_import_error st p (f_mod f)); auto.
-    - apply (i_reg2 _ I); auto.
-    - apply (i_loading _ I); auto.
-  Qed.
-
-  (* an exception is delivered to the innermost handler (catchable) or ends the run with that error:
-     the machine never hangs or gets stuck on it *)
-  Theorem raise_delivers st x :
-    (exists h hs, handlers st = h :: hs /\ snd (raiseM st x) = OCaught x /\ dead (fst (raiseM st x)) = dead st
-                  /\ handlers (fst (raiseM st x)) = hs
-                  /\ List.length (frames (fst (raiseM st x))) <= h_frames h)
-    \/ (handlers st = [] /\ snd (raiseM st x) = ODead x /\ dead (fst (raiseM st x)) = Some x).
-  Proof.
-    unfold raise. destruct (handlers st) as [|h hs] eqn:Eh; [right; simpl; auto|].
-    left. exists h, hs. simpl. repeat split; auto.
-    unfold keep_bottom. destruct (skipn _ (frames st)) as [|f r] eqn:Es; simpl; [lia|].
-    assert (Hl : List.length (skipn (List.length (frames st) - h_frames h) (frames st)) = S (List.length r)) by now rewrite Es.
-    rewrite skipn_length in Hl. lia.
-  Qed.
-
-  (* T4: a module that cannot be found / does not compile: the loader's error as is, resp. an ImportError
-     "Error compiling module:" + indented messages; nothing is registered, run or yielded *)
-  Theorem failed_load_is_import_error st p e :
-    dead st = None -> alookup (reg st) p = None -> loader p = LoadErr e ->
-    stepM st (EStartImport p) = raiseM (log_load p st) (XErr e).
-  Proof. intros Hd Hr Hl. unfold step, start_import. rewrite Hd, Hr, Hl. reflexivity. Qed.
-
-  Theorem failed_compile_is_import_error st p s msgs :
-    dead st = None -> alookup (reg st) p = None -> loader p = LoadOk s -> compiler p s = CompErr msgs ->
-    stepM st (EStartImport p)
-    = raiseM (log_load p st) (XErr (mkerr KImport (comp_head :: map (append comp_indent) msgs))).
-  Proof. intros Hd Hr Hl Hc. unfold step, start_import. rewrite Hd, Hr, Hl, Hc. reflexivity. Qed.
-
-  Theorem failed_import_registers_nothing st p :
-    dead st = None ->
-    (exists id, alookup (reg st) p = Some id /\ m_imported (getmod st id) = false)
-    \/ (alookup (reg st) p = None /\ ((exists e, loader p = LoadErr e) \/ exists s msgs, loader p = LoadOk s /\ compiler p s = CompErr msgs)) ->
-    let st' := fst (stepM st (EStartImport p)) in
-    reg st' = reg st /\ heap st' = heap st /\ ran st' = ran st /\ yielded st' = yielded st
-    /\ exists x, snd (stepM st (EStartImport p)) = OCaught x \/ snd (stepM st (EStartImport p)) = ODead x.
-  Proof.
-    intros Hd [(id & Hr & Hi)|[Hr [(e & Hl)|(s & msgs & Hl & Hc)]]] st'; unfold st'.
-    - rewrite (cycle_is_import_error st p id Hd Hr Hi).
-      destruct (raise_fields st (XErr (mkerr KImport [cyc_msg p]))) as (H1 & H2 & _ & H3 & H4).
-      repeat split; auto. eexists. apply raise_outcome.
-    - rewrite (failed_load_is_import_error st p e Hd Hr Hl).
-      destruct (raise_fields (log_load p st) (XErr e)) as (H1 & H2 & _ & H3 & H4).
-      repeat split; auto. eexists. apply raise_outcome.
-    - rewrite (failed_compile_is_import_error st p s msgs Hd Hr Hl Hc).
-      destruct (raise_fields (log_load p st) (XErr (mkerr KImport (comp_head :: map (append comp_indent) msgs)))) as (H1 & H2 & _ & H3 & H4).
-      repeat split; auto. eexists. apply raise_outcome.
+    apply is_loading_true. exists f. auto.
   Qed.
 
   (* T5: the active-module register is the module of the running closure, after every event sequence *)
@@ -850,131 +1079,22 @@ Section Proofs.
     let st := runM init evs in dead st = None -> active st = top_mod st.
   Proof. intros st. apply (i_act _ (run_init_inv evs)). Qed.
 
-  Theorem call_enters_defining_module st m :
-    dead st = None -> m < List.length (heap st) -> List.length (frames st) <> frames_max ->
-    let st' := fst (stepM st (ECall m)) in
-    frames st' = mkframe m false [] :: frames st /\ active st' = m /\ top_mod st' = m.
-  Proof.
-    intros Hd Hlt Hne st'. unfold st', step. rewrite Hd.
-    apply Nat.ltb_lt in Hlt. rewrite Hlt. unfold call_closure.
-    apply Nat.eqb_neq in Hne. rewrite Hne. simpl. auto.
-  Qed.
-
-  Theorem return_restores_caller_module st f0 f r :
-    dead st = None -> frames st = f0 :: f :: r ->
-    let st' := fst (stepM st EReturn) in frames st' = f :: r /\ active st' = f_mod f.
-  Proof. intros Hd Hf st'. unfold st', step. rewrite Hd, Hf. simpl. auto. Qed.
-
-  Theorem global_read_is_local st x :
-    dead st = None -> active st = top_mod st ->
-    stepM st (EGetGlobal x) =
-    match alookup (attrs_of st (top_mod st)) x with
-    | Some v => (st, OValue v)
-    | None => raiseM st (XErr (mkerr KName [undefined_variable x]))
-    end.
-  Proof. intros Hd Ha. unfold step. rewrite Hd, Ha. reflexivity. Qed.
-
-  Lemma attrs_raise st x q : attrs_of (fst (raiseM st x)) q = attrs_of st q.
-  Proof. unfold attrs_of, getmod. destruct (raise_fields st x) as (_ & H & _). now rewrite H. Qed.
-
-  Theorem global_write_is_local st x v q :
-    active st = top_mod st -> q <> top_mod st ->
-    attrs_of (fst (stepM st (ESetGlobal x v))) q = attrs_of st q
-    /\ attrs_of (fst (stepM st (EDefineGlobal x v))) q = attrs_of st q.
-  Proof.
-    intros Ha Hq. unfold step. destruct (dead st); [auto|]. rewrite Ha. split.
-    - destruct (alookup _ x); [|rewrite attrs_raise; reflexivity]. simpl. apply attrs_upd_attrs_other; auto.
-    - simpl. apply attrs_upd_attrs_other; auto.
-  Qed.
-
-  (* the attributes of an existing module change only through its own globals, an attribute write naming
-     it, or - at the frame limit only - the built-ins re-initialisation of an import *)
-  Theorem attrs_frame st e q :
-    q < List.length (heap st) ->
-    match e with
-    | ESetGlobal _ _ | EDefineGlobal _ _ => active st <> q
-    | ESetAttr m _ _ => m <> q
-    | EStartImport _ => List.length (frames st) <> frames_max
-    | _ => True
-    end ->
-    attrs_of (fst (stepM st e)) q = attrs_of st q.
-  Proof.
-    intros Hq He. unfold step. destruct (dead st); [auto|].
-    destruct e; simpl.
-    - unfold start_import. destruct (alookup (reg st) p) as [id|] eqn:Er.
-      + destruct (m_imported _); [|rewrite attrs_raise; reflexivity]. simpl.
-        unfold attrs_of, getmod. destruct (push_pend_fields id (log_yield p id st)) as (_ & H & _). now rewrite H.
-      + destruct (loader p) as [s|e]; [|rewrite attrs_raise; reflexivity].
-        destruct (compiler p s) as [b|msgs]; [|rewrite attrs_raise; reflexivity].
-        rewrite get_or_create_none by (simpl; exact Er).
-        set (id := List.length (heap (log_load p st))).
-        set (st3 := push_pend id _).
-        destruct (push_pend_fields id (log_yield p id (created (log_load p st) p))) as (_ & Hh3 & _ & _ & _ & Hl3 & _).
-        fold st3 in Hh3, Hl3. simpl in Hh3, Hl3.
-        unfold call_closure. rewrite Hl3. apply Nat.eqb_neq in He. rewrite He. simpl.
-        unfold init_builtins, top_mod; simpl. rewrite attrs_upd_attrs_other by (unfold id; simpl; lia).
-        unfold attrs_of, getmod; simpl. rewrite Hh3. now rewrite app_nth1.
-    - apply finish_import_fields.
-    - destruct (Nat.ltb _ _); auto. unfold attrs_of, getmod.
-      destruct (call_closure_fields st m false) as (_ & H & _). now rewrite H.
-    - destruct (frames st) as [|f0 [|f r]]; auto.
-    - rewrite attrs_raise; reflexivity.
-    - reflexivity.
-    - reflexivity.
-    - destruct (alookup _ x); [auto|rewrite attrs_raise; reflexivity].
-    - destruct (alookup _ x); [|rewrite attrs_raise; reflexivity]. simpl. apply attrs_upd_attrs_other; auto.
-    - apply attrs_upd_attrs_other; auto.
-    - destruct (alookup _ x); [auto|rewrite attrs_raise; reflexivity].
-    - apply attrs_upd_attrs_other; auto.
-  Qed.
-
   (* T6: module main and every module whose body was started have all the built-ins *)
   Theorem builtins_in_every_module evs id b :
     let st := runM init evs in
     id = 0 \/ In id (ran st) -> In b builtin_names -> exists v, alookup (attrs_of st id) b = Some v.
   Proof. intros st Hid Hb. apply in_keys_alookup. apply (i_built _ (run_init_inv evs)); auto. Qed.
-
-  Lemma alookup_fold_ainsert_other (names : list name) (a : list (name * value)) c :
-    ~ In c names -> alookup (fold_left (fun acc b => ainsert acc b (VBuiltin b)) names a) c = alookup a c.
-  Proof.
-    revert a; induction names as [|n names IH]; simpl; intros a H; auto.
-    rewrite IH by tauto. apply alookup_ainsert_other. intros ->; tauto.
-  Qed.
-
-  (* ... and nothing else: a fresh module starts with exactly the names init_built_in_globals defines *)
-  Theorem fresh_module_has_only_builtins st p s b :
-    dead st = None -> alookup (reg st) p = None -> loader p = LoadOk s -> compiler p s = CompOk b ->
-    List.length (frames st) <> frames_max ->
-    let st' := fst (stepM st (EStartImport p)) in
-    snd (stepM st (EStartImport p)) = OEntered (List.length (heap st)) b
-    /\ active st' = List.length (heap st)
-    /\ forall c, ~ In c builtin_names -> alookup (attrs_of st' (List.length (heap st))) c = None.
-  Proof.
-    intros Hd Hr Hl Hc Hne st'. unfold st', step, start_import. rewrite Hd, Hr, Hl, Hc.
-    rewrite get_or_create_none by (simpl; exact Hr).
-    set (id := List.length (heap (log_load p st))).
-    set (st3 := push_pend id _).
-    destruct (push_pend_fields id (log_yield p id (created (log_load p st) p))) as (_ & Hh3 & _ & _ & _ & Hl3 & _).
-    fold st3 in Hh3, Hl3. simpl in Hh3, Hl3.
-    unfold call_closure. rewrite Hl3. apply Nat.eqb_neq in Hne. rewrite Hne. simpl.
-    split; [reflexivity|]. split; [reflexivity|].
-    intros c Hc'. unfold init_builtins.
-    assert (Hlt : id < List.length (heap st3)) by (rewrite Hh3, app_length; unfold id; simpl; lia).
-    change (alookup (attrs_of (upd_attrs (log_ran id (load_frame (set_frames st3 (mkframe id true [] :: frames st3)))) id
-              (fun a => fold_left (fun acc b0 => ainsert acc b0 (VBuiltin b0)) builtin_names a)) id) c = None).
-    rewrite attrs_upd_attrs_same by exact Hlt.
-    rewrite alookup_fold_ainsert_other by exact Hc'.
-    unfold attrs_of, getmod; simpl. rewrite Hh3. rewrite app_nth2 by (unfold id; simpl; lia).
-    unfold id; simpl. rewrite Nat.sub_diag. reflexivity.
-  Qed.
 End Proofs.
 
 (* ---------------------------------------------------------------------------------------------- *)
 Print Assumptions body_runs_at_most_once.
-Print Assumptions loaded_at_most_once.
+Print Assumptions body_starts_only_if_absent_or_failed.
+Print Assumptions loader_called_only_if_absent_or_failed.
+Print Assumptions loaded_module_is_settled.
 Print Assumptions same_module_object.
 Print Assumptions cycle_is_import_error.
 Print Assumptions loading_module_is_cycle_error.
+Print Assumptions failed_import_is_retried.
 Print Assumptions failed_load_is_import_error.
 Print Assumptions failed_compile_is_import_error.
 Print Assumptions failed_import_registers_nothing.
@@ -984,7 +1104,8 @@ Print Assumptions builtins_in_every_module.
 Print Assumptions fresh_module_has_only_builtins.
 
 (* ---------------------------------------------------------------------------------------------- *)
-(* concrete instance: hypotheses are satisfiable, and the witnesses of the recorded findings *)
+(* concrete instance: hypotheses are satisfiable; behaviour of the current code (flags true/true) and
+   witnesses of the two repaired defects on the model variant before 367eb72 (flags false/false) *)
 Open Scope string_scope.
 
 Definition w_loader (p : path) : load_result unit :=
@@ -992,8 +1113,10 @@ Definition w_loader (p : path) : load_result unit :=
 Definition w_compiler (p : path) (_ : unit) : comp_result unit :=
   if String.eqb p "bad" then CompErr ["oops"] else CompOk tt.
 Definition w_builtins : list name := ["print"; "Vec"].
-Definition w_step := step unit unit w_loader w_compiler w_builtins 3.
-Definition w_run := run_events unit unit w_loader w_compiler w_builtins 3.
+Definition w_step := step unit unit w_loader w_compiler w_builtins 3 true true.
+Definition w_run := run_events unit unit w_loader w_compiler w_builtins 3 true true.
+Definition w_step_old := step unit unit w_loader w_compiler w_builtins 3 false false.
+Definition w_run_old := run_events unit unit w_loader w_compiler w_builtins 3 false false.
 Definition w_init := init_state (builtin_attrs ["print"; "Vec"; "RuntimeError"]).
 
 Lemma builtin_attrs_keys l : akeys (builtin_attrs l) = l.
@@ -1015,13 +1138,13 @@ Qed.
 
 (* when init_built_in_globals defines every name module main has at start-up (main_only = []), every
    started module sees all of them *)
-Theorem startup_names_in_every_module SrcId Body loader compiler (B C : list name) fm evs id b :
+Theorem startup_names_in_every_module SrcId Body loader compiler (B C : list name) fm chk grd evs id b :
   filter (fun c => negb (existsb (String.eqb c) B)) C = [] ->
-  let st := run_events SrcId Body loader compiler B fm (init_state (builtin_attrs (B ++ C))) evs in
+  let st := run_events SrcId Body loader compiler B fm chk grd (init_state (builtin_attrs (B ++ C))) evs in
   id = 0 \/ In id (ran st) -> In b (B ++ C) -> exists v, alookup (attrs_of st id) b = Some v.
 Proof.
   intros H st Hid Hb.
-  apply (builtins_in_every_module SrcId Body loader compiler B fm (builtin_attrs (B ++ C))); auto.
+  apply (builtins_in_every_module SrcId Body loader compiler B fm chk grd (builtin_attrs (B ++ C))); auto.
   - apply main_attrs_have_builtins.
   - apply (main_only_empty_incl B C); auto.
 Qed.
@@ -1030,7 +1153,7 @@ Print Assumptions startup_names_in_every_module.
 (* cycle_is_import_error: a self import (the body of "m" imports "m") and a 2-cycle *)
 Example cycle_hypotheses_satisfiable :
   let st := w_run w_init [EStartImport "m"] in
-  dead st = None /\ alookup (reg st) "m" = Some 1 /\ m_imported (getmod st 1) = false
+  dead st = None /\ alookup (reg st) "m" = Some 1 /\ m_imported (getmod st 1) = false /\ is_loading st 1 = true
   /\ snd (w_step st (EStartImport "m")) = ODead (XErr (mkerr KImport [cyc_msg "m"])).
 Proof. vm_compute. repeat split; reflexivity. Qed.
 
@@ -1047,50 +1170,75 @@ Example failed_load_hypotheses_satisfiable :
   /\ reg (fst (w_step st (EStartImport "bad"))) = reg st.
 Proof. vm_compute. repeat split; reflexivity. Qed.
 
+(* a completed import: the module is settled, a second import is the cached arm *)
+Example settled_hypotheses_satisfiable :
+  let st := w_run w_init [EStartImport "m"; EReturn] in
+  settled st "m" 1 /\ yielded st = [("m", 1)] /\ snd (w_step st (EStartImport "m")) = OModule 1
+  /\ loads (fst (w_step st (EStartImport "m"))) = ["m"] /\ ran (fst (w_step st (EStartImport "m"))) = [1].
+Proof. vm_compute. repeat split; reflexivity. Qed.
+
 (* globals: a function of module "m" called from main reads and writes m's x, not main's *)
 Example globals_isolated_example :
-  let st := w_run w_init [EDefineGlobal "x" (VNum 1); EStartImport "m"; EDefineGlobal "x" (VNum 2); EReturn; EFinishImport;
+  let st := w_run w_init [EDefineGlobal "x" (VNum 1); EStartImport "m"; EDefineGlobal "x" (VNum 2); EReturn;
                           ECall 1; ESetGlobal "x" (VNum 3)] in
   snd (w_step st (EGetGlobal "x")) = OValue (VNum 3)
   /\ snd (w_step (fst (w_step st EReturn)) (EGetGlobal "x")) = OValue (VNum 1).
 Proof. vm_compute. repeat split; reflexivity. Qed.
 
-(* OBSERVATION (not a violation of the property text): a module whose body threw stays registered with
-   imported = false; it is not being loaded any more, yet every later import reports a cycle *)
-Theorem reimport_after_failed_body_reports_cycle :
+(* the current code: a module whose body threw is loaded again from the start, as a NEW module object;
+   the failed object is no longer registered *)
+Theorem reimport_after_failed_body_reloads :
   exists evs, let st := w_run w_init evs in
-    frames st = [mkframe 0 true []] /\ ran st = [1]
-    /\ snd (w_step st (EStartImport "m")) = OCaught (XErr (mkerr KImport [cyc_msg "m"])).
+    frames st = [mkframe 0 true] /\ ran st = [1] /\ alookup (reg st) "m" = Some 1 /\ is_loading st 1 = false
+    /\ snd (w_step st (EStartImport "m")) = OEntered 2 tt
+    /\ ran (fst (w_step st (EStartImport "m"))) = [2; 1] /\ loads (fst (w_step st (EStartImport "m"))) = ["m"; "m"]
+    /\ alookup (reg (fst (w_step st (EStartImport "m")))) "m" = Some 2.
 Proof.
   exists [EPushHandler; EStartImport "m"; EThrow (VStr "boom"); EPushHandler].
   vm_compute. repeat split; reflexivity.
 Qed.
 
-(* FINDING import_at_frame_limit: with the frame stack full, the import registers the module, never runs it,
-   re-initialises the built-ins of the HANDLING module (overwriting its own `print`), and every later import
-   of the module reports a cycle.  (frames_max = 3 here; the shape is the same for 64.) *)
-Theorem import_at_frame_limit_refuted :
+(* the current code at the frame limit: the failed import leaves the handler's module alone; the later import
+   loads and runs the module *)
+Theorem import_at_frame_limit_is_clean :
   exists evs, let st0 := w_run w_init evs in let st := fst (w_step st0 (EStartImport "q")) in
-    alookup (attrs_of st0 0) "print" = Some (VNum 7)
-    /\ List.length (frames st0) = 3
-    /\ alookup (attrs_of st 0) "print" = Some (VBuiltin "print")
-    /\ alookup (reg st) "q" = Some 1 /\ ran st = [] /\ m_imported (getmod st 1) = false
-    /\ snd (w_step (fst (w_step st EPushHandler)) (EStartImport "q")) = OCaught (XErr (mkerr KImport [cyc_msg "q"])).
+    alookup (attrs_of st0 0) "print" = Some (VNum 7) /\ List.length (frames st0) = 3
+    /\ snd (w_step st0 (EStartImport "q")) = OCaught (XErr (mkerr KIndex [stack_overflow_msg]))
+    /\ alookup (attrs_of st 0) "print" = Some (VNum 7) /\ ran st = []
+    /\ snd (w_step (fst (w_step st EPushHandler)) (EStartImport "q")) = OEntered 2 tt.
 Proof.
   exists [EDefineGlobal "print" (VNum 7); EPushHandler; ECall 0; ECall 0].
   vm_compute. repeat split; reflexivity.
 Qed.
 
-(* FINDING error_classes_not_in_modules: a name module main has at start-up without being defined by
-   init_built_in_globals is undefined inside an imported module *)
-Theorem main_only_name_not_in_module_refuted :
-  snd (w_step w_init (EGetGlobal "RuntimeError")) = OValue (VBuiltin "RuntimeError")
-  /\ snd (w_step (w_run w_init [EStartImport "m"]) (EGetGlobal "RuntimeError"))
-     = ODead (XErr (mkerr KName [undefined_variable "RuntimeError"])).
-Proof. vm_compute. split; reflexivity. Qed.
+(* REPAIRED defect failed_import_poisons_module, on the model of the code before 367eb72: the module whose body
+   threw is not being loaded any more, yet every later import reports a cycle *)
+Theorem reimport_after_failed_body_reports_cycle_refuted_old :
+  exists evs, let st := w_run_old w_init evs in
+    frames st = [mkframe 0 true] /\ ran st = [1] /\ is_loading st 1 = false
+    /\ snd (w_step_old st (EStartImport "m")) = OCaught (XErr (mkerr KImport [cyc_msg "m"])).
+Proof.
+  exists [EPushHandler; EStartImport "m"; EThrow (VStr "boom"); EPushHandler].
+  vm_compute. repeat split; reflexivity.
+Qed.
 
-Print Assumptions import_at_frame_limit_refuted.
-Print Assumptions main_only_name_not_in_module_refuted.
+(* REPAIRED defect import_at_frame_limit, on the model of the code before 367eb72 *)
+Theorem import_at_frame_limit_refuted_old :
+  exists evs, let st0 := w_run_old w_init evs in let st := fst (w_step_old st0 (EStartImport "q")) in
+    alookup (attrs_of st0 0) "print" = Some (VNum 7)
+    /\ List.length (frames st0) = 3
+    /\ alookup (attrs_of st 0) "print" = Some (VBuiltin "print")
+    /\ alookup (reg st) "q" = Some 1 /\ ran st = [] /\ m_imported (getmod st 1) = false
+    /\ snd (w_step_old (fst (w_step_old st EPushHandler)) (EStartImport "q")) = OCaught (XErr (mkerr KImport [cyc_msg "q"])).
+Proof.
+  exists [EDefineGlobal "print" (VNum 7); EPushHandler; ECall 0; ECall 0].
+  vm_compute. repeat split; reflexivity.
+Qed.
+
+Print Assumptions reimport_after_failed_body_reloads.
+Print Assumptions import_at_frame_limit_is_clean.
+Print Assumptions import_at_frame_limit_refuted_old.
+Print Assumptions reimport_after_failed_body_reports_cycle_refuted_old.
 
 (* ---------------------------------------------------------------------------------------------- *)
 (* Every run of the mini-language's Mechanism evaluator is a run of the event machine: whatever state
@@ -1098,8 +1246,9 @@ Print Assumptions main_only_name_not_in_module_refuted.
    above ("over every event sequence") holds for every program of the mini-language, any fuel. *)
 Open Scope list_scope.
 
-Lemma run_events_app SrcId Body ld cp B fm st a b :
-  run_events SrcId Body ld cp B fm st (a ++ b) = run_events SrcId Body ld cp B fm (run_events SrcId Body ld cp B fm st a) b.
+Lemma run_events_app SrcId Body ld cp B fm chk grd st a b :
+  run_events SrcId Body ld cp B fm chk grd st (a ++ b)
+  = run_events SrcId Body ld cp B fm chk grd (run_events SrcId Body ld cp B fm chk grd st a) b.
 Proof. revert st; induction a as [|e a IH]; simpl; intros st; auto. Qed.
 
 Section MechReach.
@@ -1107,10 +1256,11 @@ Section MechReach.
   Variable cm : list (list (list string)).
   Variable B : list name.
   Variable fm : nat.
+  Variables chk grd : bool.
   Variable core : list name.
 
   Definition reach (st : state) : Prop :=
-    exists evs, st = run_events nat (list top) (prog_loader prog) (prog_compiler prog cm) B fm
+    exists evs, st = run_events nat (list top) (prog_loader prog) (prog_compiler prog cm) B fm chk grd
                                 (init_state (main_attrs B core)) evs.
   Definition RX (x : xst) : Prop := reach (ms x).
 
@@ -1122,15 +1272,15 @@ Section MechReach.
   Definition sres_ok (r : sres) : Prop :=
     match r with SOk x _ | SUnw _ _ x | SDead _ x => RX x end.
 
-  Lemma reach_step st e : reach st -> reach (fst (mstep prog cm B fm st e)).
+  Lemma reach_step st e : reach st -> reach (fst (mstep prog cm B fm chk grd st e)).
   Proof.
     intros [evs ->]. exists (evs ++ [e]). rewrite run_events_app. reflexivity.
   Qed.
 
-  Lemma do_step_ok x e : RX x -> sres_ok (do_step prog cm B fm x e).
+  Lemma do_step_ok x e : RX x -> sres_ok (do_step prog cm B fm chk grd x e).
   Proof.
     intros H. unfold do_step. pose proof (reach_step (ms x) e H) as H'.
-    destruct (mstep prog cm B fm (ms x) e) as [s' o]. simpl in H'.
+    destruct (mstep prog cm B fm chk grd (ms x) e) as [s' o]. simpl in H'.
     destruct o; simpl; auto. destruct (hids x); simpl; auto.
   Qed.
 
@@ -1138,17 +1288,17 @@ Section MechReach.
   Proof. intros Hr Hk. destruct r; simpl in *; auto. Qed.
 
   Lemma get_global_ok x nm k :
-    RX x -> (forall x' v, RX x' -> res_ok (k x' v)) -> res_ok (get_global prog cm B fm x nm k).
+    RX x -> (forall x' v, RX x' -> res_ok (k x' v)) -> res_ok (get_global prog cm B fm chk grd x nm k).
   Proof.
     intros Hx Hk. unfold get_global. apply bind_s_ok; [apply do_step_ok; auto|].
     intros x' o Hx'. destruct o; simpl; auto.
   Qed.
 
   Lemma resolve_ok env x nm k :
-    RX x -> (forall x' v, RX x' -> res_ok (k x' v)) -> res_ok (resolve prog cm B fm env x nm k).
+    RX x -> (forall x' v, RX x' -> res_ok (k x' v)) -> res_ok (resolve prog cm B fm chk grd env x nm k).
   Proof. intros Hx Hk. unfold resolve. destruct (lookup_local env nm); auto. apply get_global_ok; auto. Qed.
 
-  Lemma bind_alias_ok env x nm v : RX x -> res_ok (bind_alias prog cm B fm env x nm v).
+  Lemma bind_alias_ok env x nm v : RX x -> res_ok (bind_alias prog cm B fm chk grd env x nm v).
   Proof.
     intros Hx. unfold bind_alias. destruct env; simpl; auto.
     apply bind_s_ok; [apply do_step_ok; auto|]. intros x' _ Hx'. exact Hx'.
@@ -1166,23 +1316,22 @@ Section MechReach.
   Arguments bind_alias : simpl never.
   Arguments note_main_only : simpl never.
 
-  Lemma run_task_ok : forall fuel tk x, RX x -> res_ok (run_task prog cm B fm fuel tk x).
+  Lemma run_task_ok : forall fuel tk x, RX x -> res_ok (run_task prog cm B fm chk grd fuel tk x).
   Proof.
     induction fuel as [|fuel IH]; intros tk x Hx; simpl; [exact I|].
     destruct tk as [l env|s env|env w|ts src].
     - destruct l as [|s rest]; [exact Hx|].
       pose proof (IH (TkExec1 s env) x Hx) as H.
-      destruct (run_task prog cm B fm fuel (TkExec1 s env) x); simpl in *; auto.
+      destruct (run_task prog cm B fm chk grd fuel (TkExec1 s env) x); simpl in *; auto.
     - destruct s.
       + apply get_global_ok; [assumption|]. intros x1 _ H1. exact H1.
       + apply get_global_ok; [assumption|]. intros x1 _ H1. apply get_global_ok; [assumption|]. intros x2 w H2. exact H2.
       + apply bind_s_ok; [apply do_step_ok; auto|]. intros x1 _ H1. exact H1.
       + apply bind_s_ok; [apply do_step_ok; auto|]. intros x1 o H1. destruct o; simpl; auto.
-        * apply bind_s_ok; [apply do_step_ok; auto|]. intros x2 _ H2. apply bind_alias_ok; auto.
+        * apply bind_alias_ok; auto.
         * pose proof (IH (TkTops b (src_of_mod x1 id)) x1 H1) as Ht.
-          destruct (run_task prog cm B fm fuel (TkTops b (src_of_mod x1 id)) x1); simpl in *; auto.
-          apply bind_s_ok; [apply do_step_ok; auto|]. intros x3 _ H3.
-          apply bind_s_ok; [apply do_step_ok; auto|]. intros x4 _ H4. apply bind_alias_ok; auto.
+          destruct (run_task prog cm B fm chk grd fuel (TkTops b (src_of_mod x1 id)) x1); simpl in *; auto.
+          apply bind_s_ok; [apply do_step_ok; auto|]. intros x3 _ H3. apply bind_alias_ok; auto.
       + apply get_global_ok; [assumption|]. intros x1 _ H1. apply resolve_ok; [assumption|]. intros x2 w H2.
         destruct w; simpl; auto. apply bind_s_ok; [apply do_step_ok; auto|]. intros x3 o H3.
         destruct o; simpl; auto.
@@ -1196,9 +1345,9 @@ Section MechReach.
         destruct k as [|[q|[q|q|]|]];
           repeat (first [apply get_global_ok; [auto using note_ok|]; intros | exact I | assumption | apply note_ok; assumption]).
       + apply bind_s_ok; [apply do_step_ok; auto|]. intros x1 _ H1.
-        match goal with |- res_ok (match run_task _ _ _ _ _ ?tk ?xx with _ => _ end) =>
-          assert (Hb : res_ok (run_task prog cm B fm fuel tk xx)) by (apply IH; exact H1);
-          destruct (run_task prog cm B fm fuel tk xx) as [env' x2|h e x2|e x2| |why]; simpl in *; auto
+        match goal with |- res_ok (match run_task _ _ _ _ _ _ _ ?tk ?xx with _ => _ end) =>
+          assert (Hb : res_ok (run_task prog cm B fm chk grd fuel tk xx)) by (apply IH; exact H1);
+          destruct (run_task prog cm B fm chk grd fuel tk xx) as [env' x2|h e x2|e x2| |why]; simpl in *; auto
         end.
         * apply bind_s_ok; [apply do_step_ok; auto|]. intros x3 _ H3. exact H3.
         * destruct (Nat.eqb h (nexth x)); simpl; auto.
@@ -1206,18 +1355,18 @@ Section MechReach.
           apply get_global_ok; [exact H4|]. intros x6 _ H6. apply get_global_ok; [assumption|]. intros x7 _ H7.
           apply get_global_ok; [assumption|]. intros x8 _ H8. exact H8.
       + pose proof (IH (TkExec body ([] :: env)) x Hx) as Hb.
-        destruct (run_task prog cm B fm fuel (TkExec body ([] :: env)) x); simpl in *; auto.
+        destruct (run_task prog cm B fm chk grd fuel (TkExec body ([] :: env)) x); simpl in *; auto.
     - destruct w; simpl; auto.
       destruct (find_fn prog f) as [body|]; simpl; auto.
       apply bind_s_ok; [apply do_step_ok; auto|]. intros x1 _ H1.
       pose proof (IH (TkExec body [[]]) x1 H1) as Hb.
-      destruct (run_task prog cm B fm fuel (TkExec body [[]]) x1); simpl in *; auto.
+      destruct (run_task prog cm B fm chk grd fuel (TkExec body [[]]) x1); simpl in *; auto.
       apply bind_s_ok; [apply do_step_ok; auto|]. intros x3 _ H3. exact H3.
     - destruct ts as [|t rest]; [exact Hx|].
       assert (Hr : res_ok (match t with
-                           | TStmt s => run_task prog cm B fm fuel (TkExec1 s []) x
-                           | TDef v n => bind_s (do_step prog cm B fm x (EDefineGlobal (var_name v) (VNum n))) (fun x1 _ => RNormal [] x1)
-                           | TFn f _ => bind_s (do_step prog cm B fm x (EDefineGlobal (fn_name f) (VFn (active (ms x)) (fn_key src f)))) (fun x1 _ => RNormal [] x1)
+                           | TStmt s => run_task prog cm B fm chk grd fuel (TkExec1 s []) x
+                           | TDef v n => bind_s (do_step prog cm B fm chk grd x (EDefineGlobal (var_name v) (VNum n))) (fun x1 _ => RNormal [] x1)
+                           | TFn f _ => bind_s (do_step prog cm B fm chk grd x (EDefineGlobal (fn_name f) (VFn (active (ms x)) (fn_key src f)))) (fun x1 _ => RNormal [] x1)
                            end)).
       { destruct t.
         - apply IH; auto.
@@ -1227,20 +1376,20 @@ Section MechReach.
   Qed.
 
   Theorem mech_final_state_reachable fuel st :
-    final_state prog cm B fm fuel core = Some st -> reach st.
+    final_state prog cm B fm chk grd fuel core = Some st -> reach st.
   Proof.
     unfold final_state. intros E.
-    assert (Hts : forall ts, res_ok (exec_tops prog cm B fm fuel ts 0 (mech_init B core))).
+    assert (Hts : forall ts, res_ok (exec_tops prog cm B fm chk grd fuel ts 0 (mech_init B core))).
     { intros ts. apply run_task_ok. exists []; reflexivity. }
     destruct prog as [|[ts| |k] rest] eqn:Ep; try discriminate.
     specialize (Hts ts).
-    destruct (exec_tops (MOk ts :: rest) cm B fm fuel ts 0 (mech_init B core)); simpl in *; inversion E; subst; auto.
+    destruct (exec_tops (MOk ts :: rest) cm B fm chk grd fuel ts 0 (mech_init B core)); simpl in *; inversion E; subst; auto.
   Qed.
 
-  (* e.g.: whatever program runs, whatever the fuel, no module body is started twice *)
+  (* e.g.: whatever program runs, whatever the fuel, no module object's body is started twice, and the active
+     module is the module of the running closure *)
   Corollary program_body_runs_at_most_once fuel st :
-    final_state prog cm B fm fuel core = Some st ->
-    NoDup (ran st) /\ NoDup (map (fun id => m_path (getmod st id)) (ran st)).
+    final_state prog cm B fm chk grd fuel core = Some st -> NoDup (ran st).
   Proof.
     intros H. destruct (mech_final_state_reachable fuel st H) as [evs ->].
     apply body_runs_at_most_once. intros b Hb. unfold main_attrs.
@@ -1248,7 +1397,7 @@ Section MechReach.
   Qed.
 
   Corollary program_globals_isolated fuel st :
-    final_state prog cm B fm fuel core = Some st -> dead st = None -> active st = top_mod st.
+    final_state prog cm B fm chk grd fuel core = Some st -> dead st = None -> active st = top_mod st.
   Proof.
     intros H. destruct (mech_final_state_reachable fuel st H) as [evs ->].
     apply globals_isolated. intros b Hb. unfold main_attrs. apply main_attrs_have_builtins; auto.
